@@ -6,6 +6,7 @@ Local Open Scope nat_scope.
 
 Definition T (s : st) (i : nat) : option pc := nth_error (thrs s) i.
 Definition step (s : st) (i : nat) : st := fst (fst (tstep s i)).
+Definition cstep (s : st) (i : nat) : st := fst (fst (core s i)).
 
 Inductive reachable (ops : list (list Z)) : st -> Prop :=
 | r_init : reachable ops (init ops)
@@ -14,12 +15,8 @@ Inductive reachable (ops : list (list Z)) : st -> Prop :=
 (* ---------- counting ---------- *)
 Fixpoint cnt (c : nat) (l : list nat) : nat :=
   match l with [] => 0 | x :: r => (if Nat.eqb c x then 1 else 0) + cnt c r end.
-Definition qof (c : nat) (p : pc) : nat := match p with Join _ q _ => cnt c q | _ => 0 end.
+Definition qof (c : nat) (p : pc) : nat := match p with Join _ q _ _ => cnt c q | SWait _ q _ => cnt c q | _ => 0 end.
 Fixpoint sumq (c : nat) (l : list pc) : nat := match l with [] => 0 | p :: r => qof c p + sumq c r end.
-(* field f of closure c, d when c does not exist *)
-Definition G {A} (f : clo -> A) (d : A) (s : st) (c : nat) : A :=
-  match nth_error (clos s) c with Some x => f x | None => d end.
-Definition kown (x : clo) : bool := owned (ck x).
 (* where closure c is: invoked + destroyed un-run + queued + swapped out by a stop() in progress *)
 Definition tot (s : st) (c : nat) : nat := G cran 0 s c + G cdrop 0 s c + cnt c (queue s) + sumq c (thrs s).
 Arguments cnt : simpl never.
@@ -92,7 +89,8 @@ Proof. unfold G. intros L. apply nth_error_None in L. rewrite L. reflexivity. Qe
 (* the parts of the state a closure-store update leaves alone *)
 Definition shell_eq (s s' : st) : Prop :=
   queue s' = queue s /\ exit_ s' = exit_ s /\ threads s' = threads s /\ tokens s' = tokens s /\
-  destroyed s' = destroyed s /\ nclients s' = nclients s /\ thrs s' = thrs s /\ length (clos s') = length (clos s).
+  destroyed s' = destroyed s /\ nclients s' = nclients s /\ thrs s' = thrs s /\ length (clos s') = length (clos s) /\
+  stopped s' = stopped s /\ woken s' = woken s /\ cont s' = cont s /\ extw s' = extw s /\ uad s' = uad s.
 
 Lemma shell_eq_refl s : shell_eq s s. Proof. repeat split. Qed.
 Lemma shell_eq_trans a b c : shell_eq a b -> shell_eq b c -> shell_eq a c.
@@ -105,10 +103,9 @@ Record drop_rel (s s' : st) (l : list nat) : Prop := {
   dr_shell : shell_eq s s';
   dr_ran : forall c, G cran 0 s' c = G cran 0 s c;
   dr_on : forall c, G cran_on 0 s' c = G cran_on 0 s c;
-  dr_own : forall c, G kown false s' c = G kown false s c;
-  dr_cb : forall c, G cb BNone s' c = G cb BNone s c;
+  dr_cb : forall c, G cb [] s' c = G cb [] s c;
   dr_drop : forall c, G cdrop 0 s' c = G cdrop 0 s c + cntv s c l;
-  dr_canc : forall c, G ccanc 0 s' c = G ccanc 0 s c + (if G kown false s c then cntv s c l else 0)
+  dr_canc : forall c, G ccanc 0 s' c = G ccanc 0 s c + cntv s c l
 }.
 
 Lemma drop1_rel t s e c0 : drop_rel s (fst (drop1 t (s, e) c0)) [c0].
@@ -123,7 +120,6 @@ Proof.
     + intros c. rewrite G_set, Lb. destruct (Nat.eqb_spec c0 c); [subst; rewrite (G_some _ _ _ _ _ E)|]; reflexivity.
     + intros c. rewrite G_set, Lb. destruct (Nat.eqb_spec c0 c); [subst; rewrite (G_some _ _ _ _ _ E)|]; reflexivity.
     + intros c. rewrite G_set, Lb. destruct (Nat.eqb_spec c0 c); [subst; rewrite (G_some _ _ _ _ _ E)|]; reflexivity.
-    + intros c. rewrite G_set, Lb. destruct (Nat.eqb_spec c0 c); [subst; rewrite (G_some _ _ _ _ _ E)|]; reflexivity.
     + intros c. rewrite G_set, Lb. unfold cntv. rewrite cnt_cons, cnt_nil.
       destruct (Nat.eqb_spec c0 c) as [Q|Q].
       * subst. rewrite (G_some _ _ _ _ _ E), Lb, Nat.eqb_refl. cbn [drop_clo cdrop]. lia.
@@ -131,42 +127,37 @@ Proof.
         destruct (Nat.ltb c (length (clos s))); lia.
     + intros c. rewrite G_set, Lb. unfold cntv. rewrite cnt_cons, cnt_nil.
       destruct (Nat.eqb_spec c0 c) as [Q|Q].
-      * subst. rewrite !(G_some _ _ _ _ _ E), Lb, Nat.eqb_refl. unfold kown. cbn [drop_clo ccanc ck].
-        destruct (owned (ck x)); lia.
+      * subst. rewrite (G_some _ _ _ _ _ E), Lb, Nat.eqb_refl. cbn [drop_clo ccanc]. lia.
       * assert (Q2 : Nat.eqb c c0 = false) by (apply Nat.eqb_neq; congruence). rewrite Q2.
-        destruct (G kown false s c); destruct (Nat.ltb c (length (clos s))); lia.
+        destruct (Nat.ltb c (length (clos s))); lia.
   - cbn [fst].
     assert (L : length (clos s) <= c0) by (apply nth_error_None; exact E).
-    constructor; try (intros; reflexivity); [apply shell_eq_refl| |].
-    + intros c. unfold cntv. rewrite cnt_cons, cnt_nil.
-      destruct (Nat.ltb_spec c (length (clos s))); [|lia].
-      assert (Q2 : Nat.eqb c c0 = false) by (apply Nat.eqb_neq; lia). rewrite Q2. lia.
-    + intros c. unfold cntv. rewrite cnt_cons, cnt_nil.
-      destruct (Nat.ltb_spec c (length (clos s))); [|destruct (G kown false s c); lia].
-      assert (Q2 : Nat.eqb c c0 = false) by (apply Nat.eqb_neq; lia). rewrite Q2.
-      destruct (G kown false s c); lia.
+    assert (Z0 : forall c, cntv s c [c0] = 0).
+    { intros c. unfold cntv. rewrite cnt_cons, cnt_nil.
+      destruct (Nat.ltb_spec c (length (clos s))); [|reflexivity].
+      assert (Q2 : Nat.eqb c c0 = false) by (apply Nat.eqb_neq; lia). rewrite Q2. reflexivity. }
+    constructor; try (intros; reflexivity); [repeat split| |]; intros c; rewrite Z0; lia.
 Qed.
 
 Lemma drop_rel_app s s1 s2 a b : drop_rel s s1 a -> drop_rel s1 s2 b -> drop_rel s s2 (a ++ b).
 Proof.
-  intros [h1 r1 o1 w1 b1 d1 c1] [h2 r2 o2 w2 b2 d2 c2].
+  intros [h1 r1 o1 b1 d1 c1] [h2 r2 o2 b2 d2 c2].
   assert (LEN : length (clos s1) = length (clos s)) by (unfold shell_eq in h1; tauto).
   constructor.
-  - eapply shell_eq_trans; eassumption.
+  - unfold shell_eq in *. intuition congruence.
   - intros c. rewrite r2, r1. reflexivity.
   - intros c. rewrite o2, o1. reflexivity.
-  - intros c. rewrite w2, w1. reflexivity.
   - intros c. rewrite b2, b1. reflexivity.
   - intros c. rewrite d2, d1. unfold cntv. rewrite LEN, cnt_app.
     destruct (Nat.ltb c (length (clos s))); lia.
-  - intros c. rewrite c2, c1, w1. unfold cntv. rewrite LEN, cnt_app.
-    destruct (G kown false s c); destruct (Nat.ltb c (length (clos s))); lia.
+  - intros c. rewrite c2, c1. unfold cntv. rewrite LEN, cnt_app.
+    destruct (Nat.ltb c (length (clos s))); lia.
 Qed.
 
 Lemma drop_rel_nil s : drop_rel s s [].
 Proof.
-  constructor; try (intros; reflexivity); [apply shell_eq_refl| |]; intros c; unfold cntv; rewrite cnt_nil;
-    destruct (Nat.ltb c (length (clos s))); try destruct (G kown false s c); lia.
+  constructor; try (intros; reflexivity); [repeat split| |]; intros c; unfold cntv; rewrite cnt_nil;
+    destruct (Nat.ltb c (length (clos s))); lia.
 Qed.
 
 Lemma fold_drop_rel t l : forall s e, drop_rel s (fst (fold_left (drop1 t) l (s, e))) l.
@@ -189,58 +180,17 @@ Proof.
   pose proof (sumq_set_nth c (thrs s) i p old H). lia.
 Qed.
 
-Lemma tot_shell s s' c : shell_eq s s' ->
-  tot s' c + G cran 0 s c + G cdrop 0 s c = tot s c + G cran 0 s' c + G cdrop 0 s' c.
-Proof. unfold shell_eq, tot. intros (q & _ & _ & _ & _ & _ & t & _). rewrite q, t. lia. Qed.
+Lemma sumq_ge c l i old : nth_error l i = Some old -> qof c old <= sumq c l.
+Proof. intros H. pose proof (sumq_set_nth c l i CDone old H). cbn [qof] in H0. lia. Qed.
 
-(* ---------- invariant A: every closure is in exactly one place ---------- *)
-Record InvA (s : st) : Prop := {
-  a_tot : forall c, tot s c = if Nat.ltb c (length (clos s)) then 1 else 0;
-  a_canc : forall c, G ccanc 0 s c = if G kown false s c then G cdrop 0 s c else 0
-}.
+Lemma tot_drop s s' l c : drop_rel s s' l -> tot s' c = tot s c + cntv s c l.
+Proof.
+  intros [h r o b d cc]. destruct h as (hq & _ & _ & _ & _ & _ & ht & _).
+  unfold tot. rewrite r, d, hq, ht. lia.
+Qed.
 
-Lemma a_valid_q s c : InvA s -> length (clos s) <= c -> cnt c (queue s) = 0.
-Proof.
-  intros I L. pose proof (a_tot s I c) as H. destruct (Nat.ltb_spec c (length (clos s))); [lia|].
-  unfold tot in H. lia.
-Qed.
-Lemma a_valid_j s c i l q a : InvA s -> T s i = Some (Join l q a) -> length (clos s) <= c -> cnt c q = 0.
-Proof.
-  intros I H L. pose proof (a_tot s I c) as H1. destruct (Nat.ltb_spec c (length (clos s))); [lia|].
-  unfold tot in H1.
-  pose proof (sumq_set_nth c (thrs s) i CDone _ H) as H2. cbn [qof] in H2. lia.
-Qed.
 Lemma cntv_valid s c l : (length (clos s) <= c -> cnt c l = 0) -> cntv s c l = cnt c l.
 Proof. unfold cntv. intros H. destruct (Nat.ltb_spec c (length (clos s))); [reflexivity|]. symmetry. auto. Qed.
-
-Lemma inva_init ops : InvA (init ops).
-Proof.
-  unfold init. constructor; cbn [clos queue thrs length].
-  - intros c. unfold tot, G. cbn [clos queue thrs]. rewrite cnt_nil.
-    assert (H : forall l, (forall p, In p l -> qof c p = 0) -> sumq c l = 0).
-    { induction l as [|p l IH]; intros F; [reflexivity|]. rewrite sumq_cons, IH, F; cbn; auto. intros; apply F; right; auto. }
-    rewrite H.
-    + destruct c; reflexivity.
-    + intros p Hin. apply in_app_or in Hin. destruct Hin as [Hin|Hin].
-      * apply in_map_iff in Hin. destruct Hin as ([i pr] & <- & _). unfold next_client. cbn [fst snd].
-        destruct pr; [destruct (Nat.eqb i 0)|]; reflexivity.
-      * apply repeat_spec in Hin. subst. reflexivity.
-  - intros c. unfold G. cbn [clos]. destruct c; reflexivity.
-Qed.
-
-(* a generic shape: the new state is (with_thr s1 i p) where s1 relates to s by a described change *)
-Lemma inva_with_thr s i p old : InvA s -> T s i = Some old -> (forall c, qof c p = qof c old) -> InvA (with_thr s i p).
-Proof.
-  intros [I1 I2] H Q. constructor.
-  - intros c. pose proof (tot_with_thr s i p old c H). rewrite Q in H0. unfold with_thr at 2. cbn [clos].
-    rewrite <- I1. lia.
-  - intros c. unfold with_thr, G. cbn [clos]. apply I2.
-Qed.
-
-Lemma thrs_with_clos s cl : thrs (with_clos s cl) = thrs s. Proof. reflexivity. Qed.
-Lemma T_with_clos s cl i : T (with_clos s cl) i = T s i. Proof. reflexivity. Qed.
-Lemma T_with_queue s q i : T (with_queue s q) i = T s i. Proof. reflexivity. Qed.
-Lemma T_with_tokens s n i : T (with_tokens s n) i = T s i. Proof. reflexivity. Qed.
 
 Lemma cntv_single s1 c c0 : length (clos s1) = S c0 -> cntv s1 c [c0] = if Nat.eqb c c0 then 1 else 0.
 Proof.
@@ -253,6 +203,57 @@ Lemma ltb_S_cases c n : Nat.ltb c (S n) = if Nat.eqb c n then true else Nat.ltb 
 Proof.
   destruct (Nat.eqb_spec c n); [subst; apply Nat.ltb_lt; lia|].
   destruct (Nat.ltb_spec c n); [apply Nat.ltb_lt; lia|apply Nat.ltb_ge; lia].
+Qed.
+
+(* ---------- invariant A: every closure is in exactly one place; a cancellation per un-run destruction ---------- *)
+Definition CancOK (s : st) : Prop := forall c, G ccanc 0 s c = G cdrop 0 s c.
+Definition TotOK (s : st) : Prop := forall c, tot s c = if Nat.ltb c (length (clos s)) then 1 else 0.
+Record InvA (s : st) : Prop := { a_tot : TotOK s; a_canc : CancOK s }.
+
+Lemma canc_drop s s' l : drop_rel s s' l -> CancOK s -> CancOK s'.
+Proof. intros [h r o b d cc] C c. rewrite cc, d, (C c). reflexivity. Qed.
+Lemma canc_same_clos s s' : clos s' = clos s -> CancOK s -> CancOK s'.
+Proof. intros E C c. unfold G. rewrite E. apply C. Qed.
+
+(* InvA only reads clos, queue and thrs *)
+Lemma inva_ext s s' : clos s' = clos s -> queue s' = queue s -> thrs s' = thrs s -> InvA s -> InvA s'.
+Proof.
+  intros Ec Eq Et [I1 I2]. constructor.
+  - intros c. unfold tot, G. rewrite Ec, Eq, Et. apply I1.
+  - apply (canc_same_clos s); assumption.
+Qed.
+
+Lemma sumq_zero c l : (forall p, In p l -> qof c p = 0) -> sumq c l = 0.
+Proof.
+  induction l as [|p l IH]; intros F; [reflexivity|]. rewrite sumq_cons, IH, F; cbn; auto.
+  intros; apply F; right; auto.
+Qed.
+
+Lemma next_client_q c i r : qof c (next_client i r) = 0.
+Proof. unfold next_client. destruct r; [destruct (Nat.eqb i 0)|]; reflexivity. Qed.
+Lemma job_next_q c r : qof c (job_next r) = 0.
+Proof. destruct r as [|[] r]; reflexivity. Qed.
+Lemma pc_after_q c t a : qof c (pc_after t a) = 0.
+Proof. destruct a as [r| |[|] r]; cbn [pc_after]; try reflexivity; [apply next_client_q|apply job_next_q]. Qed.
+
+Lemma inva_init ops : InvA (init ops).
+Proof.
+  unfold init. constructor.
+  - intros c. unfold tot, G. cbn [clos queue thrs length]. rewrite cnt_nil, sumq_zero.
+    + destruct c; reflexivity.
+    + intros p Hin. apply in_app_or in Hin. destruct Hin as [Hin|Hin].
+      * apply in_map_iff in Hin. destruct Hin as ([i pr] & <- & _). apply next_client_q.
+      * apply repeat_spec in Hin. subst. reflexivity.
+  - intros c. unfold G. cbn [clos]. destruct c; reflexivity.
+Qed.
+
+(* the thread changes only its own pc, to one that holds the same swapped-out list *)
+Lemma inva_with_thr s i p old : InvA s -> T s i = Some old -> (forall c, qof c p = qof c old) -> InvA (with_thr s i p).
+Proof.
+  intros [I1 I2] H Q. constructor.
+  - intros c. pose proof (tot_with_thr s i p old c H). rewrite Q in H0. unfold with_thr at 2. cbn [clos].
+    rewrite <- I1. lia.
+  - apply (canc_same_clos s); [reflexivity|exact I2].
 Qed.
 
 (* enqueue followed by the caller's move to a pc without a swapped-out list *)
@@ -274,8 +275,8 @@ Proof.
   - (* rejected: dropped in the caller *)
     pose proof (drop1_rel i s1 [] c0) as D.
     set (s2 := fst (drop1 i (s1, []) c0)) in *.
-    destruct D as [h r o w bb d cc].
-    destruct h as (hq & _ & _ & _ & _ & _ & ht & hl).
+    destruct D as [h r o bb d cc].
+    destruct h as (hq & _ & _ & _ & _ & _ & ht & hl & _).
     assert (Qs : queue s2 = queue s) by (rewrite hq; reflexivity).
     assert (Ts : thrs s2 = thrs s) by (rewrite ht; reflexivity).
     assert (LEN2 : length (clos s2) = S c0) by lia.
@@ -288,12 +289,9 @@ Proof.
       destruct (Nat.eqb_spec c c0) as [Q|Q].
       * subst c. rewrite !N0 in I1. rewrite Nat.ltb_irrefl in I1. cbn [y cran cdrop]. lia.
       * lia.
-    + intros c. unfold with_thr, G at 1 2 3. cbn [clos]. fold (G ccanc 0 s2 c) (G kown false s2 c) (G cdrop 0 s2 c).
-      rewrite cc, w, d, !G1, (cntv_single s1 c c0 LEN1).
-      specialize (I2 c).
-      destruct (Nat.eqb_spec c c0) as [Q|Q].
-      * unfold kown. cbn [y ccanc cdrop ck]. destruct (owned k); lia.
-      * rewrite I2. destruct (G kown false s c); lia.
+    + intros c. unfold with_thr, G at 1 2. cbn [clos]. fold (G ccanc 0 s2 c) (G cdrop 0 s2 c).
+      rewrite cc, d, !G1. specialize (I2 c).
+      destruct (Nat.eqb_spec c c0) as [Q|Q]; [reflexivity|]. rewrite I2. reflexivity.
   - (* accepted *)
     cbn [fst].
     constructor.
@@ -306,101 +304,105 @@ Proof.
       destruct (Nat.eqb_spec c c0) as [Q|Q].
       * subst c. rewrite !N0 in I1. rewrite Nat.ltb_irrefl in I1. cbn [y cran cdrop]. lia.
       * lia.
-    + intros c. unfold with_thr, with_tokens, with_queue, G at 1 2 3. cbn [clos].
-      fold (G ccanc 0 s1 c) (G kown false s1 c) (G cdrop 0 s1 c). rewrite !G1.
-      destruct (Nat.eqb_spec c c0) as [Q|Q].
-      * cbn [y ccanc cdrop]. destruct (kown y); reflexivity.
-      * apply I2.
+    + intros c. unfold with_thr, with_tokens, with_queue, G at 1 2. cbn [clos].
+      fold (G ccanc 0 s1 c) (G cdrop 0 s1 c). rewrite !G1.
+      destruct (Nat.eqb_spec c c0) as [Q|Q]; [reflexivity|apply I2].
 Qed.
 
-Lemma sumq_ge c l i old : nth_error l i = Some old -> qof c old <= sumq c l.
-Proof. intros H. pose proof (sumq_set_nth c l i CDone old H). cbn [qof] in H0. lia. Qed.
+(* "pre-invariant" of a thread that carries a list q on its stack: q is counted in `extra` *)
+Definition TotX (s : st) (q : list nat) (old : pc) : Prop :=
+  forall c, tot s c + cnt c q = (if Nat.ltb c (length (clos s)) then 1 else 0) + qof c old.
 
-Lemma tot_drop s s' l c : drop_rel s s' l -> tot s' c = tot s c + cntv s c l.
+Lemma totx_valid s t q old : T s t = Some old -> TotX s q old ->
+  (forall c, length (clos s) <= c -> cnt c q = 0) /\ (forall c, length (clos s) <= c -> cnt c (queue s) = 0).
 Proof.
-  intros [h r o w b d cc]. destruct h as (hq & _ & _ & _ & _ & _ & ht & _).
-  unfold tot. rewrite r, d, hq, ht. lia.
+  intros H Ht. split; intros c L; specialize (Ht c);
+    assert (Lb : Nat.ltb c (length (clos s)) = false) by (apply Nat.ltb_ge; lia);
+    rewrite Lb in Ht; pose proof (sumq_ge c (thrs s) t old H); unfold tot in Ht; lia.
 Qed.
 
-Definition CancOK (s : st) : Prop := forall c, G ccanc 0 s c = if G kown false s c then G cdrop 0 s c else 0.
-
-Lemma canc_drop s s' l : drop_rel s s' l -> CancOK s -> CancOK s'.
-Proof.
-  intros [h r o w b d cc] C c. rewrite cc, w, d, (C c). destruct (G kown false s c); lia.
-Qed.
-
-Lemma canc_same_clos s s' : clos s' = clos s -> CancOK s -> CancOK s'.
-Proof. intros E C c. unfold G. rewrite E. apply C. Qed.
-
-(* end of a stop(): the swapped-out list q (accounted for in old's pc or handed over by stop_mark) dies *)
-Lemma inva_stop_end s t q a old :
-  T s t = Some old ->
-  (forall c, tot s c + cnt c q = (if Nat.ltb c (length (clos s)) then 1 else 0) + qof c old) ->
-  CancOK s ->
-  InvA (fst (stop_end s t q a)).
+(* stop() returns to the caller: a_tot for the state in which the caller's pc no longer holds anything *)
+Lemma inva_returned s t a old : T s t = Some old -> TotX s [] old -> CancOK s -> InvA (fst (returned s t a)).
 Proof.
   intros H Ht C.
-  assert (VQ : forall c, length (clos s) <= c -> cnt c q = 0).
-  { intros c L. specialize (Ht c). assert (Lb : Nat.ltb c (length (clos s)) = false) by (apply Nat.ltb_ge; lia).
-    rewrite Lb in Ht. pose proof (sumq_ge c (thrs s) t old H). unfold tot in Ht. lia. }
-  assert (VQ2 : forall c, length (clos s) <= c -> cnt c (queue s) = 0).
-  { intros c L. specialize (Ht c). assert (Lb : Nat.ltb c (length (clos s)) = false) by (apply Nat.ltb_ge; lia).
-    rewrite Lb in Ht. pose proof (sumq_ge c (thrs s) t old H). unfold tot in Ht. lia. }
+  destruct (totx_valid s t [] old H Ht) as [_ VQ2].
+  assert (SIMPLE : forall p, (forall c, qof c p = 0) -> InvA (with_thr s t p)).
+  { intros p Qp. constructor.
+    - intros c. pose proof (tot_with_thr s t p old c H) as E. rewrite Qp in E. specialize (Ht c). rewrite cnt_nil in Ht.
+      unfold with_thr at 2. cbn [clos]. lia.
+    - apply (canc_same_clos s); [reflexivity|exact C]. }
+  unfold returned. destruct a as [prog| |d r].
+  - cbn [fst]. apply SIMPLE. intros c. apply (pc_after_q c t (AClient prog)).
+  - pose proof (drop_all_rel t s (queue s)) as D2.
+    destruct (drop_all t s (queue s)) as [s2 e2] eqn:E2. cbn [fst] in D2. cbn [fst].
+    assert (T2 : thrs s2 = thrs s).
+    { destruct D2 as [h _ _ _ _ _]. destruct h as (_ & _ & _ & _ & _ & _ & ht & _). exact ht. }
+    assert (L2 : length (clos s2) = length (clos s)).
+    { destruct D2 as [h _ _ _ _ _]. destruct h as (_ & _ & _ & _ & _ & _ & _ & hl & _). exact hl. }
+    constructor.
+    + intros c. unfold tot, with_thr, dead, G at 1 2. cbn [clos queue thrs]. fold (G cran 0 s2 c) (G cdrop 0 s2 c).
+      rewrite cnt_nil, L2, T2.
+      destruct D2 as [_ r2 _ _ d2 _]. rewrite r2, d2.
+      rewrite (cntv_valid s c (queue s) (VQ2 c)).
+      specialize (Ht c). rewrite cnt_nil in Ht. unfold tot in Ht.
+      pose proof (sumq_set_nth c (thrs s) t CDone old H) as E3. cbn [qof] in E3. lia.
+    + apply (canc_same_clos s2); [reflexivity|]. eapply canc_drop; eassumption.
+  - cbn [fst]. apply SIMPLE. intros c. apply (pc_after_q c t (AWorker d r)).
+Qed.
+
+(* end of the join loop: the swapped-out list q dies *)
+Lemma inva_stop_end s t q first a old : T s t = Some old -> TotX s q old -> CancOK s ->
+  InvA (fst (stop_end s t q first a)).
+Proof.
+  intros H Ht C.
+  destruct (totx_valid s t q old H Ht) as [VQ VQ2].
   unfold stop_end. pose proof (drop_all_rel t s q) as D.
   destruct (drop_all t s q) as [s1 e] eqn:E1. cbn [fst] in D.
   assert (T1 : T s1 t = Some old).
-  { unfold T. destruct D as [h _ _ _ _ _ _]. destruct h as (_ & _ & _ & _ & _ & _ & ht & _). rewrite ht. exact H. }
+  { unfold T. destruct D as [h _ _ _ _ _]. destruct h as (_ & _ & _ & _ & _ & _ & ht & _). rewrite ht. exact H. }
   assert (L1 : length (clos s1) = length (clos s)).
-  { destruct D as [h _ _ _ _ _ _]. destruct h as (_ & _ & _ & _ & _ & _ & _ & hl). exact hl. }
+  { destruct D as [h _ _ _ _ _]. destruct h as (_ & _ & _ & _ & _ & _ & _ & hl & _). exact hl. }
   assert (C1 : CancOK s1) by (eapply canc_drop; eassumption).
-  assert (TOT1 : forall c, tot s1 c = (if Nat.ltb c (length (clos s)) then 1 else 0) + qof c old).
-  { intros c. rewrite (tot_drop s s1 q c D), (cntv_valid s c q (VQ c)). specialize (Ht c). lia. }
-  assert (SIMPLE : forall p, (forall c, qof c p = 0) -> InvA (with_thr s1 t p)).
-  { intros p Qp. constructor.
-    - intros c. pose proof (tot_with_thr s1 t p old c T1) as E. rewrite Qp, TOT1 in E.
-      unfold with_thr at 2. cbn [clos]. rewrite L1. lia.
-    - apply (canc_same_clos s1); [reflexivity|exact C1]. }
-  destruct a as [prog| |[|]].
-  - cbn [fst]. apply SIMPLE. intros c. unfold next_client. destruct prog; [destruct (Nat.eqb t 0)|]; reflexivity.
-  - pose proof (drop_all_rel t s1 (queue s1)) as D2.
-    destruct (drop_all t s1 (queue s1)) as [s2 e2] eqn:E2. cbn [fst] in D2. cbn [fst].
-    assert (Q1 : queue s1 = queue s).
-    { destruct D as [h _ _ _ _ _ _]. destruct h as (hq & _). exact hq. }
-    assert (T2 : thrs s2 = thrs s1).
-    { destruct D2 as [h _ _ _ _ _ _]. destruct h as (_ & _ & _ & _ & _ & _ & ht & _). exact ht. }
-    assert (L2 : length (clos s2) = length (clos s1)).
-    { destruct D2 as [h _ _ _ _ _ _]. destruct h as (_ & _ & _ & _ & _ & _ & _ & hl). exact hl. }
-    constructor.
-    + intros c. unfold tot, with_thr, G at 1 2. cbn [clos queue thrs]. fold (G cran 0 s2 c) (G cdrop 0 s2 c).
-      rewrite cnt_nil, L2, L1, T2.
-      destruct D2 as [_ r2 _ _ _ d2 _]. rewrite r2, d2.
-      assert (V : cntv s1 c (queue s1) = cnt c (queue s)).
-      { rewrite Q1. apply cntv_valid. rewrite L1. apply VQ2. }
-      rewrite V. pose proof (TOT1 c) as E. unfold tot in E. rewrite Q1 in E.
-      assert (T1' : nth_error (thrs s1) t = Some old) by exact T1.
-      pose proof (sumq_set_nth c (thrs s1) t CDone old T1') as E3. cbn [qof] in E3. lia.
-    + apply (canc_same_clos s2); [reflexivity|]. eapply canc_drop; eassumption.
-  - cbn [fst]. apply SIMPLE. reflexivity.
-  - cbn [fst]. apply SIMPLE. reflexivity.
+  assert (TOT1 : TotX s1 [] old).
+  { intros c. rewrite cnt_nil, (tot_drop s s1 q c D), (cntv_valid s c q (VQ c)), L1. specialize (Ht c). lia. }
+  destruct first.
+  - cbn [fst]. constructor.
+    + intros c. pose proof (tot_with_thr s1 t (SFin a) old c T1) as E. cbn [qof] in E. specialize (TOT1 c).
+      rewrite cnt_nil in TOT1. unfold with_thr at 2. cbn [clos]. lia.
+    + apply (canc_same_clos s1); [reflexivity|exact C1].
+  - pose proof (inva_returned s1 t a old T1 TOT1 C1) as R.
+    destruct (returned s1 t a) as [s2 e2]. exact R.
+Qed.
+
+Lemma inva_after_wait s t l q first a old : T s t = Some old -> TotX s q old -> CancOK s ->
+  InvA (fst (after_wait s t l q first a)).
+Proof.
+  intros H Ht C. unfold after_wait. destruct l as [|w l].
+  - apply (inva_stop_end s t q first a old); assumption.
+  - cbn [fst]. constructor.
+    + intros c. pose proof (tot_with_thr s t (Join (w :: l) q first a) old c H) as E. cbn [qof] in E.
+      specialize (Ht c). unfold with_thr at 2. cbn [clos]. lia.
+    + apply (canc_same_clos s); [reflexivity|exact C].
 Qed.
 
 Lemma inva_stop_mark s t a old : InvA s -> T s t = Some old -> (forall c, qof c old = 0) ->
   InvA (fst (stop_mark s t a)).
 Proof.
   intros [I1 I2] H Qo. unfold stop_mark.
-  set (s1 := mkSt [] true [] (sleepers s) (destroyed s) (nclients s) (clos s) (thrs s)).
-  set (a' := match a with AWorker _ => AWorker (existsb (Nat.eqb t) (threads s)) | _ => a end).
-  assert (TOT1 : forall c, tot s1 c + cnt c (queue s) = tot s c).
-  { intros c. unfold tot, s1, G. cbn [clos queue thrs]. rewrite cnt_nil. lia. }
+  set (s1 := marked s (sleeper_ids s)).
+  set (a' := match a with AWorker _ r => AWorker (existsb (Nat.eqb t) (threads s)) r | _ => a end).
+  set (l := filter (fun w => negb (Nat.eqb w t)) (threads s)).
+  assert (TX : TotX s1 (queue s) old).
+  { intros c. unfold tot, s1, marked, G. cbn [clos queue thrs]. rewrite cnt_nil, Qo.
+    specialize (I1 c). unfold tot, G in I1. lia. }
   assert (C1 : CancOK s1) by (apply (canc_same_clos s); [reflexivity|exact I2]).
-  destruct (filter (fun w => negb (Nat.eqb w t)) (threads s)) as [|w l] eqn:F.
-  - apply (inva_stop_end s1 t (queue s) a' old); [exact H| |exact C1].
-    intros c. rewrite TOT1, Qo, I1. unfold s1. cbn [clos]. lia.
+  assert (H1 : T s1 t = Some old) by exact H.
+  destruct (negb (negb (exit_ s)) && negb (is_cur a) && negb (stopped s)).
   - cbn [fst]. constructor.
-    + intros c. assert (H1 : T s1 t = Some old) by exact H.
-      pose proof (tot_with_thr s1 t (Join (w :: l) (queue s) a') old c H1) as E. cbn [qof] in E.
-      rewrite Qo in E. unfold with_thr at 2. cbn [clos]. change (clos s1) with (clos s). specialize (TOT1 c). rewrite I1 in TOT1. lia.
+    + intros c. pose proof (tot_with_thr s1 t (SWait l (queue s) a') old c H1) as E. cbn [qof] in E.
+      specialize (TX c). unfold with_thr at 2. cbn [clos]. change (clos s1) with (clos s) in *. lia.
     + apply (canc_same_clos s); [reflexivity|exact I2].
+  - apply (inva_after_wait s1 t l (queue s) (negb (exit_ s)) a' old); assumption.
 Qed.
 
 Lemma inva_run_job s w c0 r old : InvA s -> queue s = c0 :: r -> T s w = Some old -> (forall c, qof c old = 0) ->
@@ -413,8 +415,8 @@ Proof.
   unfold run_job. replace (clos (with_queue s r)) with (clos s) by reflexivity.
   destruct (nth_error (clos s) c0) as [x|] eqn:E; [|apply nth_error_None in E; lia].
   set (x' := mkClo (clbl x) (ck x) (cb x) (S (cran x)) w (cdrop x) (ccanc x)).
-  set (p := match cb x with BNone => WIdle | BSub k l => WSub l k | BStop => WStop end).
-  assert (Qp : forall c, qof c p = 0) by (intros c; unfold p; destruct (cb x); reflexivity).
+  set (p := job_next (cb x)).
+  assert (Qp : forall c, qof c p = 0) by (intros c; apply job_next_q).
   assert (Lb : Nat.ltb c0 (length (clos s)) = true) by (apply Nat.ltb_lt; exact L).
   cbn [fst]. constructor.
   - intros c. unfold tot, with_thr, with_clos, with_queue, G at 1 2. cbn [clos queue thrs].
@@ -429,11 +431,9 @@ Proof.
     destruct (Nat.eqb_spec c0 c) as [QQ|QQ].
     + subst c. rewrite Nat.eqb_refl in I1. rewrite !(G_some _ _ _ _ _ E) in I1. cbn [x' cran cdrop]. lia.
     + assert (Q2 : Nat.eqb c c0 = false) by (apply Nat.eqb_neq; congruence). rewrite Q2 in I1. lia.
-  - intros c. unfold with_thr, with_clos, with_queue, G at 1 2 3. cbn [clos].
+  - intros c. unfold with_thr, with_clos, with_queue, G at 1 2. cbn [clos].
     change (match nth_error (set_nth (clos s) c0 x') c with Some x0 => ccanc x0 | None => 0 end)
       with (G ccanc 0 (with_clos s (set_nth (clos s) c0 x')) c).
-    change (match nth_error (set_nth (clos s) c0 x') c with Some x0 => kown x0 | None => false end)
-      with (G kown false (with_clos s (set_nth (clos s) c0 x')) c).
     change (match nth_error (set_nth (clos s) c0 x') c with Some x0 => cdrop x0 | None => 0 end)
       with (G cdrop 0 (with_clos s (set_nth (clos s) c0 x')) c).
     rewrite !G_set, Lb. specialize (I2 c).
@@ -441,342 +441,707 @@ Proof.
     subst c. rewrite !(G_some _ _ _ _ _ E) in I2. exact I2.
 Qed.
 
-Lemma inva_shell_thr s s' i p old : InvA s -> T s i = Some old -> (forall c, qof c old = 0) -> (forall c, qof c p = 0) ->
-  clos s' = clos s -> queue s' = queue s -> thrs s' = thrs s -> InvA (with_thr s' i p).
+Lemma exit_pc_q c s w : qof c (exit_pc s w) = 0.
+Proof. unfold exit_pc. destruct (Nat.ltb w (nclients s)); [apply next_client_q|reflexivity]. Qed.
+
+Lemma inva_worker_cs s w old : InvA s -> T s w = Some old -> (forall c, qof c old = 0) -> InvA (fst (worker_cs s w)).
 Proof.
-  intros [I1 I2] H Qo Qp Ec Eq Et. constructor.
-  - intros c. unfold tot, with_thr, G. cbn [clos queue thrs]. rewrite Ec, Eq, Et.
-    pose proof (sumq_set_nth c (thrs s) i p old H) as E1. rewrite Qo, Qp in E1.
-    specialize (I1 c). unfold tot, G in I1. lia.
-  - intros c. unfold with_thr, G. cbn [clos]. rewrite Ec. apply I2.
+  intros I H Qo. unfold worker_cs.
+  destruct (exit_ s) eqn:EX.
+  - cbn [fst]. apply (inva_with_thr s w _ old I H). intros c. rewrite Qo. apply exit_pc_q.
+  - destruct (queue s) as [|c0 r] eqn:QQ.
+    + cbn [fst]. apply (inva_with_thr s w _ old I H). intros c. rewrite Qo. reflexivity.
+    + apply (inva_run_job s w c0 r old); auto.
 Qed.
 
-Lemma inva_worker_cs s s' w old : InvA s -> T s w = Some old -> (forall c, qof c old = 0) ->
-  clos s' = clos s -> queue s' = queue s -> thrs s' = thrs s -> exit_ s' = exit_ s ->
-  InvA (fst (worker_cs s' w)).
+Theorem inva_core s i : InvA s -> enabled s i = true -> InvA (cstep s i).
 Proof.
-  intros I H Qo Ec Eq Et Ee. unfold worker_cs.
-  destruct (exit_ s') eqn:EX.
-  - cbn [fst]. apply (inva_shell_thr s s' w WExit old); auto.
-  - destruct (queue s') as [|c0 r] eqn:QQ.
-    + cbn [fst]. apply (inva_shell_thr s s' w WSleep old); auto; congruence.
-    + assert (I' : InvA s').
-      { destruct I as [I1 I2]. constructor.
-        - intros c. unfold tot, G. rewrite Ec, Et, QQ. specialize (I1 c). unfold tot, G in I1. rewrite <- Eq in I1. exact I1.
-        - intros c. unfold G. rewrite Ec. apply I2. }
-      apply (inva_run_job s' w c0 r old); auto. unfold T. rewrite Et. exact H.
+  intros I EN. unfold cstep, core. unfold enabled in EN.
+  destruct (nth_error (thrs s) i) as [p|] eqn:H; [|discriminate].
+  destruct p as [prog| | | | | |l k r|l r|l r|r|q r| |l q f a|l q a|a].
+  - destruct prog as [|[l k b| |] r].
+    + cbn [fst]. apply (inva_with_thr s i _ (CAt []) I H). intros c. apply next_client_q.
+    + pose proof (inva_enqueue s i l k b (next_client i r) (CAt (OSub l k b :: r)) I H) as E.
+      destruct (enqueue s i l k b) as [s1 e]. cbn [fst] in *. apply E; [reflexivity|]. intros c. apply next_client_q.
+    + pose proof (inva_stop_mark s i (AClient r) _ I H) as E.
+      destruct (stop_mark s i (AClient r)) as [s1 e]. cbn [fst] in *. apply E. reflexivity.
+    + assert (I' : InvA (with_ext s i r)) by (apply (inva_ext s); auto).
+      pose proof (inva_worker_cs (with_ext s i r) i (CAt (OWorker :: r)) I' H) as E.
+      destruct (worker_cs (with_ext s i r) i) as [s1 e]. cbn [fst] in *. apply E. reflexivity.
+  - cbn [fst]. apply (inva_with_thr s i _ CXWait I H). reflexivity.
+  - pose proof (inva_stop_mark s i ADtor _ I H) as E.
+    destruct (stop_mark s i ADtor) as [s1 e]. cbn [fst] in *. apply E. reflexivity.
+  - discriminate.
+  - pose proof (inva_worker_cs s i WIdle I H) as E.
+    destruct (worker_cs s i) as [s1 e]. cbn [fst] in *. apply E. reflexivity.
+  - assert (I' : InvA (wake s i)).
+    { apply (inva_ext s); auto; unfold wake; destruct (is_woken s i); reflexivity. }
+    assert (H' : T (wake s i) i = Some WSleep) by (unfold T, wake; destruct (is_woken s i); exact H).
+    pose proof (inva_worker_cs (wake s i) i WSleep I' H') as E.
+    destruct (worker_cs (wake s i) i) as [s1 e]. cbn [fst] in *. apply E. reflexivity.
+  - pose proof (inva_enqueue s i l k [] (job_next r) (WSub l k r) I H) as E.
+    destruct (enqueue s i l k []) as [s1 e]. cbn [fst] in *. apply E; [reflexivity|]. intros c. apply job_next_q.
+  - pose proof (inva_enqueue s i l KHop r WIdle (WHop l r) I H) as E.
+    destruct (enqueue s i l KHop r) as [s1 e]. cbn [fst] in *. apply E; reflexivity.
+  - cbn [fst]. apply (inva_with_thr s i _ (WPeek l r) I H). intros c.
+    destruct (exit_ s); [apply job_next_q|reflexivity].
+  - pose proof (inva_stop_mark s i (AWorker false r) _ I H) as E.
+    destruct (stop_mark s i (AWorker false r)) as [s1 e]. cbn [fst] in *. apply E. reflexivity.
+  - cbn [fst]. apply (inva_with_thr s i _ (WQry q r) I H). intros c. apply job_next_q.
+  - discriminate.
+  - assert (SE : InvA (fst (stop_end s i q f a))).
+    { apply (inva_stop_end s i q f a (Join l q f a)); [exact H| |exact (a_canc s I)].
+      intros c. rewrite (a_tot s I c). cbn [qof]. lia. }
+    destruct l as [|w0 [|w1 l]].
+    + destruct (stop_end s i q f a) as [s1 e]. exact SE.
+    + destruct (stop_end s i q f a) as [s1 e]. exact SE.
+    + cbn [fst]. apply (inva_with_thr s i _ (Join (w0 :: w1 :: l) q f a) I H). reflexivity.
+  - assert (I' : InvA (wake s i)).
+    { apply (inva_ext s); auto; unfold wake; destruct (is_woken s i); reflexivity. }
+    assert (H' : T (wake s i) i = Some (SWait l q a)) by (unfold T, wake; destruct (is_woken s i); exact H).
+    destruct (stopped s).
+    + pose proof (inva_after_wait (wake s i) i l q false a _ H') as E.
+      destruct (after_wait (wake s i) i l q false a) as [s1 e]. cbn [fst] in *. apply E; [|exact (a_canc _ I')].
+      intros c. rewrite (a_tot _ I' c). cbn [qof]. lia.
+    + cbn [fst]. exact I'.
+  - assert (I' : InvA (finished s (sleeper_ids s))) by (apply (inva_ext s); auto).
+    pose proof (inva_returned (finished s (sleeper_ids s)) i a (SFin a) H) as E.
+    destruct (returned (finished s (sleeper_ids s)) i a) as [s1 e]. cbn [fst] in *. apply E; [|exact (a_canc _ I')].
+    intros c. rewrite cnt_nil, (a_tot _ I' c). cbn [qof]. lia.
+Qed.
+
+Lemma step_core s i : step s i = cstep s i \/ step s i = with_uad (cstep s i) true.
+Proof.
+  unfold step, cstep, tstep. destruct (core s i) as [[s1 p] e]. cbn [fst].
+  destruct (match nth_error (thrs s) i with Some p0 => destroyed s && touches p0 | None => false end); auto.
 Qed.
 
 Theorem inva_step s i : InvA s -> enabled s i = true -> InvA (step s i).
 Proof.
-  intros I EN. unfold step, tstep. unfold enabled in EN.
-  destruct (nth_error (thrs s) i) as [p|] eqn:H; [|discriminate].
-  assert (Z0 : forall c, qof c (next_client i []) = 0) by (intros; unfold next_client; destruct (Nat.eqb i 0); reflexivity).
-  destruct p as [prog| | | | | |l k| | |l q a].
-  - destruct prog as [|[l k b|] r].
-    + cbn [fst]. apply (inva_with_thr s i _ (CAt [])); auto.
-    + pose proof (inva_enqueue s i l k b (next_client i r) (CAt (OSub l k b :: r)) I H) as E.
-      destruct (enqueue s i l k b) as [s1 e]. cbn [fst] in *. apply E; [reflexivity|].
-      intros c. unfold next_client. destruct r; [destruct (Nat.eqb i 0)|]; reflexivity.
-    + pose proof (inva_stop_mark s i (AClient r) _ I H) as E.
-      destruct (stop_mark s i (AClient r)) as [s1 e]. cbn [fst] in *. apply E. reflexivity.
-  - cbn [fst]. apply (inva_with_thr s i _ CXWait); auto.
-  - pose proof (inva_stop_mark s i ADtor _ I H) as E.
-    destruct (stop_mark s i ADtor) as [s1 e]. cbn [fst] in *. apply E. reflexivity.
-  - discriminate.
-  - pose proof (inva_worker_cs s s i WIdle I H) as E.
-    destruct (worker_cs s i) as [s1 e]. cbn [fst] in *. apply E; reflexivity.
-  - pose proof (inva_worker_cs s (with_tokens s (pred (tokens s))) i WSleep I H) as E.
-    destruct (worker_cs (with_tokens s (pred (tokens s))) i) as [s1 e]. cbn [fst] in *. apply E; reflexivity.
-  - pose proof (inva_enqueue s i l k BNone WIdle (WSub l k) I H) as E.
-    destruct (enqueue s i l k BNone) as [s1 e]. cbn [fst] in *. apply E; reflexivity.
-  - pose proof (inva_stop_mark s i (AWorker false) _ I H) as E.
-    destruct (stop_mark s i (AWorker false)) as [s1 e]. cbn [fst] in *. apply E. reflexivity.
-  - discriminate.
-  - assert (SE : InvA (fst (stop_end s i q a))).
-    { apply (inva_stop_end s i q a (Join l q a)); [exact H| |exact (a_canc s I)].
-      intros c. rewrite (a_tot s I c). cbn [qof]. lia. }
-    destruct l as [|w0 [|w1 l]].
-    + destruct (stop_end s i q a) as [s1 e]. exact SE.
-    + destruct (stop_end s i q a) as [s1 e]. exact SE.
-    + cbn [fst]. apply (inva_with_thr s i _ (Join (w0 :: w1 :: l) q a)); auto.
+  intros I EN. pose proof (inva_core s i I EN) as C.
+  destruct (step_core s i) as [-> | ->]; [exact C|]. apply (inva_ext (cstep s i)); auto.
 Qed.
 
 Theorem inva_reachable ops s : reachable ops s -> InvA s.
 Proof. induction 1; [apply inva_init|apply inva_step; assumption]. Qed.
 
-(* ---------- what a step does to everything except the closure counters ---------- *)
-Definition pc_after (t : nat) (a : after) : pc :=
-  match a with AClient prog => next_client t prog | ADtor => CDone | AWorker true => WExit | AWorker false => WIdle end.
-Definition job_pc (b : body) : pc := match b with BNone => WIdle | BSub k l => WSub l k | BStop => WStop end.
+(* ---------- what the pieces of a step do to everything except the closure counters ---------- *)
+Definition fin_pc (t : nat) (first : bool) (a : after) : pc := if first then SFin a else pc_after t a.
+Definition is_dtor (a : after) : bool := match a with ADtor => true | _ => false end.
 
-Lemma stop_end_shell s t q a : forall s', s' = fst (stop_end s t q a) ->
-  queue s' = (match a with ADtor => [] | _ => queue s end) /\ exit_ s' = exit_ s /\ threads s' = threads s /\
-  tokens s' = tokens s /\ destroyed s' = (match a with ADtor => true | _ => destroyed s end) /\
-  nclients s' = nclients s /\ thrs s' = set_nth (thrs s) t (pc_after t a) /\
-  (forall c, G cb BNone s' c = G cb BNone s c) /\ (forall c, G cran 0 s' c = G cran 0 s c) /\
-  (forall c, G cran_on 0 s' c = G cran_on 0 s c).
+(* the fields stop_end / returned / drop never change *)
+Definition env_eq (s s' : st) : Prop :=
+  exit_ s' = exit_ s /\ stopped s' = stopped s /\ threads s' = threads s /\ tokens s' = tokens s /\ woken s' = woken s /\
+  nclients s' = nclients s /\ cont s' = cont s /\ extw s' = extw s /\ uad s' = uad s.
+Definition gkeep (s s' : st) : Prop :=
+  (forall c, G cb [] s' c = G cb [] s c) /\ (forall c, G cran 0 s' c = G cran 0 s c) /\
+  (forall c, G cran_on 0 s' c = G cran_on 0 s c) /\ length (clos s') = length (clos s).
+
+Lemma drop_env t s l : env_eq s (fst (drop_all t s l)) /\ gkeep s (fst (drop_all t s l)) /\
+  queue (fst (drop_all t s l)) = queue s /\ destroyed (fst (drop_all t s l)) = destroyed s /\
+  thrs (fst (drop_all t s l)) = thrs s.
 Proof.
-  intros s' ->. unfold stop_end. pose proof (drop_all_rel t s q) as D.
-  destruct (drop_all t s q) as [s1 e]. cbn [fst] in D.
-  destruct D as [h r o w b d cc]. destruct h as (hq & he & ht & hk & hd & hn & hth & hl).
-  assert (SIMPLE : forall p, queue (with_thr s1 t p) = queue s /\ exit_ (with_thr s1 t p) = exit_ s /\
-     threads (with_thr s1 t p) = threads s /\ tokens (with_thr s1 t p) = tokens s /\
-     destroyed (with_thr s1 t p) = destroyed s /\ nclients (with_thr s1 t p) = nclients s /\
-     thrs (with_thr s1 t p) = set_nth (thrs s) t p /\
-     (forall c, G cb BNone (with_thr s1 t p) c = G cb BNone s c) /\
-     (forall c, G cran 0 (with_thr s1 t p) c = G cran 0 s c) /\
-     (forall c, G cran_on 0 (with_thr s1 t p) c = G cran_on 0 s c)).
-  { intros p. unfold with_thr. cbn [queue exit_ threads tokens destroyed nclients thrs]. rewrite hth.
-    repeat split; auto. }
-  destruct a as [prog| |[|]].
-  - cbn [fst pc_after]. apply SIMPLE.
-  - pose proof (drop_all_rel t s1 (queue s1)) as D2.
-    destruct (drop_all t s1 (queue s1)) as [s2 e2]. cbn [fst] in D2.
-    destruct D2 as [h2 r2 o2 w2 b2 d2 cc2]. destruct h2 as (hq2 & he2 & ht2 & hk2 & hd2 & hn2 & hth2 & hl2).
-    cbn [fst pc_after]. unfold with_thr. cbn [queue exit_ threads tokens destroyed nclients thrs].
-    rewrite hth2, hth. repeat split; try congruence.
-    + intros c. unfold G at 1. cbn [clos]. fold (G cb BNone s2 c). rewrite b2. apply b.
-    + intros c. unfold G at 1. cbn [clos]. fold (G cran 0 s2 c). rewrite r2. apply r.
-    + intros c. unfold G at 1. cbn [clos]. fold (G cran_on 0 s2 c). rewrite o2. apply o.
-  - cbn [fst pc_after]. apply SIMPLE.
-  - cbn [fst pc_after]. apply SIMPLE.
+  destruct (drop_all_rel t s l) as [h r o b d cc].
+  destruct h as (hq & he & ht & hk & hd & hn & hth & hl & hs & hw & hc & hx & hu).
+  unfold env_eq, gkeep. repeat split; auto.
+Qed.
+
+Lemma returned_shell s t a : forall s', s' = fst (returned s t a) ->
+  env_eq s s' /\ gkeep s s' /\
+  queue s' = (if is_dtor a then [] else queue s) /\
+  destroyed s' = (if is_dtor a then true else destroyed s) /\
+  thrs s' = set_nth (thrs s) t (pc_after t a).
+Proof.
+  intros s' ->. unfold returned.
+  destruct a as [prog| |d r].
+  - cbn [fst is_dtor]. unfold env_eq, gkeep, with_thr. cbn. repeat split; auto.
+  - destruct (drop_env t s (queue s)) as (E & K & Q & D & Th).
+    destruct (drop_all t s (queue s)) as [s1 e]. cbn [fst] in *. cbn [is_dtor pc_after].
+    unfold env_eq, gkeep, with_thr, dead in *. cbn [queue exit_ stopped threads tokens woken destroyed nclients clos thrs cont extw uad].
+    rewrite Th. unfold G in *. cbn [clos]. intuition.
+  - cbn [fst is_dtor]. unfold env_eq, gkeep, with_thr. cbn. repeat split; auto.
+Qed.
+
+Lemma env_trans a b c : env_eq a b -> env_eq b c -> env_eq a c.
+Proof. unfold env_eq. intuition congruence. Qed.
+Lemma gkeep_trans a b c : gkeep a b -> gkeep b c -> gkeep a c.
+Proof.
+  unfold gkeep. intros (x1 & x2 & x3 & x4) (y1 & y2 & y3 & y4). split; [|split; [|split]].
+  - intros. rewrite y1, x1. reflexivity.
+  - intros. rewrite y2, x2. reflexivity.
+  - intros. rewrite y3, x3. reflexivity.
+  - congruence.
+Qed.
+
+Lemma stop_end_shell s t q first a : forall s', s' = fst (stop_end s t q first a) ->
+  env_eq s s' /\ gkeep s s' /\
+  queue s' = (if negb first && is_dtor a then [] else queue s) /\
+  destroyed s' = (if negb first && is_dtor a then true else destroyed s) /\
+  thrs s' = set_nth (thrs s) t (fin_pc t first a).
+Proof.
+  intros s' ->. unfold stop_end.
+  destruct (drop_env t s q) as (E & K & Q & D & Th).
+  destruct (drop_all t s q) as [s1 e]. cbn [fst] in *.
+  destruct first; cbn [negb andb fin_pc].
+  - cbn [fst]. unfold env_eq, gkeep, with_thr in *. cbn [queue exit_ stopped threads tokens woken destroyed nclients clos thrs cont extw uad].
+    rewrite Th. unfold G in *. cbn [clos]. intuition.
+  - destruct (returned_shell s1 t a _ eq_refl) as (E2 & K2 & Q2 & D2 & Th2).
+    destruct (returned s1 t a) as [s2 e2]. cbn [fst] in *.
+    split; [eapply env_trans; eassumption|]. split; [eapply gkeep_trans; eassumption|].
+    rewrite Q2, D2, Th2, Q, D, Th. auto.
+Qed.
+
+Lemma after_wait_shell s t l q first a : forall s', s' = fst (after_wait s t l q first a) ->
+  env_eq s s' /\ gkeep s s' /\
+  queue s' = (if (match l with [] => true | _ => false end) && negb first && is_dtor a then [] else queue s) /\
+  destroyed s' = (if (match l with [] => true | _ => false end) && negb first && is_dtor a then true else destroyed s) /\
+  thrs s' = set_nth (thrs s) t (match l with [] => fin_pc t first a | _ => Join l q first a end).
+Proof.
+  intros s' ->. unfold after_wait. destruct l as [|w l].
+  - cbn [andb]. apply (stop_end_shell s t q first a). reflexivity.
+  - cbn [fst andb]. unfold env_eq, gkeep, with_thr. cbn. repeat split; auto.
 Qed.
 
 Lemma enqueue_shell s t l k b : forall s', s' = fst (enqueue s t l k b) ->
-  queue s' = (if exit_ s then queue s else queue s ++ [length (clos s)]) /\ exit_ s' = exit_ s /\ threads s' = threads s /\
-  tokens s' = (if exit_ s then tokens s else if Nat.ltb (tokens s) (sleepers s) then S (tokens s) else tokens s) /\
-  destroyed s' = destroyed s /\ nclients s' = nclients s /\ thrs s' = thrs s /\
-  (forall c, G cb BNone s' c = if Nat.eqb c (length (clos s)) then b else G cb BNone s c) /\
+  queue s' = (if exit_ s then queue s else queue s ++ [length (clos s)]) /\ exit_ s' = exit_ s /\ stopped s' = stopped s /\
+  threads s' = threads s /\
+  tokens s' = (if exit_ s then tokens s else if Nat.ltb (tokens s + length (woken s)) (sleepers s) then S (tokens s) else tokens s) /\
+  woken s' = woken s /\ destroyed s' = destroyed s /\ nclients s' = nclients s /\ thrs s' = thrs s /\
+  cont s' = cont s /\ extw s' = extw s /\ uad s' = uad s /\ length (clos s') = S (length (clos s)) /\
+  (forall c, G cb [] s' c = if Nat.eqb c (length (clos s)) then b else G cb [] s c) /\
   (forall c, G cran 0 s' c = if Nat.eqb c (length (clos s)) then 0 else G cran 0 s c) /\
   (forall c, G cran_on 0 s' c = if Nat.eqb c (length (clos s)) then 0 else G cran_on 0 s c).
 Proof.
   intros s' ->. unfold enqueue.
   set (s1 := with_clos s (clos s ++ [mkClo l k b 0 0 0 0])).
+  assert (L1 : length (clos s1) = S (length (clos s))) by (unfold s1, with_clos; cbn [clos]; rewrite app_length; cbn; lia).
   destruct (exit_ s) eqn:EX.
   - pose proof (drop1_rel t s1 [] (length (clos s))) as D.
-    destruct D as [h r o w bb d cc]. destruct h as (hq & he & ht & hk & hd & hn & hth & hl).
-    rewrite hq, he, ht, hk, hd, hn, hth. unfold s1 at 1 2 3 4 5 6 7. cbn [with_clos queue exit_ threads tokens destroyed nclients thrs].
+    destruct D as [h r o bb d cc]. destruct h as (hq & he & ht & hk & hd & hn & hth & hl & hs & hw & hc & hx & hu).
+    rewrite hq, he, ht, hk, hd, hn, hth, hl, hs, hw, hc, hx, hu, L1.
+    unfold s1 at 1 2 3 4 5 6 7 8 9 10 11 12. cbn [with_clos queue exit_ stopped threads tokens woken destroyed nclients thrs cont extw uad].
     repeat split; auto; intros c; [rewrite bb|rewrite r|rewrite o]; unfold s1; rewrite G_app; reflexivity.
-  - cbn [fst]. unfold with_tokens, with_queue. cbn [queue exit_ threads tokens destroyed nclients thrs].
+  - cbn [fst]. unfold with_tokens, with_queue. cbn [queue exit_ stopped threads tokens woken destroyed nclients thrs cont extw uad clos].
     repeat split; auto; intros c; unfold G at 1; cbn [clos];
-      [fold (G cb BNone s1 c)|fold (G cran 0 s1 c)|fold (G cran_on 0 s1 c)]; unfold s1; rewrite G_app; reflexivity.
+      [fold (G cb [] s1 c)|fold (G cran 0 s1 c)|fold (G cran_on 0 s1 c)]; unfold s1; rewrite G_app; reflexivity.
 Qed.
 
-Definition is_client (p : pc) : bool :=
-  match p with
-  | CAt _ | CXWait | CDtor | CDone => true
-  | Join _ _ (AClient _) | Join _ _ ADtor => true
-  | _ => false
-  end.
+(* ---------- invariant B: basic safety facts ---------- *)
+Definition in_stop (p : pc) : bool := match p with Join _ _ _ _ | SWait _ _ _ | SFin _ => true | _ => false end.
+
+(* the thread found its own entry in _threads, detached it and reset _current *)
+Definition det_after (a : after) : bool := match a with AWorker true _ => true | _ => false end.
+Definition det_of (p : pc) : bool := match p with Join _ _ _ a | SWait _ _ a | SFin a => det_after a | _ => false end.
 
 Record InvB (s : st) : Prop := {
   b_exit : exit_ s = true -> queue s = [] /\ threads s = [];
-  b_destr : destroyed s = true -> exit_ s = true;
+  b_destr : destroyed s = true -> exit_ s = true /\ stopped s = true;
+  b_stopped : stopped s = true -> exit_ s = true;
   b_ncl : 0 < nclients s <= length (thrs s);
-  b_class : forall i p, T s i = Some p -> (is_client p = true <-> i < nclients s);
+  b_class : forall i p, T s i = Some p -> (nclients s <= i -> is_client p = false) /\ (i < nclients s -> p <> WExit);
   b_done0 : T s 0 = Some CDone -> destroyed s = true;
-  b_ran : forall c, 1 <= G cran 0 s c -> nclients s <= G cran_on 0 s c < length (thrs s);
-  b_join : forall i l q a, T s i = Some (Join l q a) -> exit_ s = true
+  b_ran : forall c, 1 <= G cran 0 s c ->
+            G cran_on 0 s c < length (thrs s) /\ (nclients s <= G cran_on 0 s c \/ In (G cran_on 0 s c) (extw s));
+  b_join : forall i p, T s i = Some p -> in_stop p = true -> exit_ s = true;
+  b_first : forall i l q f a, T s i = Some (Join l q f a) -> f = true;
+  b_swait : forall i l q a, T s i = Some (SWait l q a) -> l = [] /\ q = [] /\ is_cur a = false;
+  b_thr : forall w, In w (threads s) -> nclients s <= w < length (thrs s);
+  b_ext : forall i p, T s i = Some p -> i < nclients s -> is_client p = false -> In i (extw s);
+  b_det : forall i p, T s i = Some p -> i < nclients s -> det_of p = false;
+  b_thrlen : length (threads s) <= length (thrs s)
 }.
 
+Lemma TT_set s s' i p old : T s i = Some old -> thrs s' = set_nth (thrs s) i p ->
+  forall j, T s' j = if Nat.eqb i j then Some p else T s j.
+Proof.
+  intros H Et j. pose proof (T_lt s i old H) as L. unfold T. rewrite Et. destruct (Nat.eqb_spec i j) as [E|E].
+  - subst. apply nth_error_set_nth_same. exact L.
+  - apply nth_error_set_nth_other. exact E.
+Qed.
+
+Definition RanOK (s : st) (n : nat) (m : nat) (x : list nat) : Prop :=
+  forall c, 1 <= G cran 0 s c -> G cran_on 0 s c < n /\ (m <= G cran_on 0 s c \/ In (G cran_on 0 s c) x).
+
 Lemma invb_frame s s' i p old : InvB s -> T s i = Some old ->
-  thrs s' = set_nth (thrs s) i p -> nclients s' = nclients s -> is_client p = is_client old ->
+  thrs s' = set_nth (thrs s) i p -> nclients s' = nclients s ->
+  (nclients s <= i -> is_client p = false) -> (i < nclients s -> p <> WExit) ->
   (exit_ s' = true -> queue s' = [] /\ threads s' = []) ->
-  (destroyed s' = true -> exit_ s' = true) ->
+  (destroyed s' = true -> exit_ s' = true /\ stopped s' = true) ->
+  (stopped s' = true -> exit_ s' = true) ->
   (i = 0 -> p = CDone -> destroyed s' = true) -> (destroyed s = true -> destroyed s' = true) ->
-  (forall c, 1 <= G cran 0 s' c -> nclients s <= G cran_on 0 s' c < length (thrs s)) ->
-  (exit_ s = true -> exit_ s' = true) -> (forall l q a, p = Join l q a -> exit_ s' = true) ->
+  RanOK s' (length (thrs s)) (nclients s) (extw s') ->
+  (exit_ s = true -> exit_ s' = true) -> (in_stop p = true -> exit_ s' = true) ->
+  (forall l q f a, p = Join l q f a -> f = true) ->
+  (forall l q a, p = SWait l q a -> l = [] /\ q = [] /\ is_cur a = false) ->
+  (threads s' = threads s \/ threads s' = []) ->
+  (i < nclients s -> is_client p = false -> In i (extw s')) -> (forall z, In z (extw s) -> In z (extw s')) ->
+  (i < nclients s -> det_of p = false) ->
   InvB s'.
 Proof.
-  intros [B1 B2 B3 B4 B5 B6 B7] H Et En Ec X1 X2 X3 X4 X5 X6 X7.
-  pose proof (T_lt s i old H) as L.
-  assert (TT : forall j, T s' j = if Nat.eqb i j then Some p else T s j).
-  { intros j. unfold T. rewrite Et. destruct (Nat.eqb_spec i j) as [E|E].
-    - subst. apply nth_error_set_nth_same. exact L.
-    - apply nth_error_set_nth_other. exact E. }
+  intros [B1 B2 B3 B4 B5 B6 B7 B8 B9 B10 B11 B12 B13 B14] H Et En Pc1 Pc2 X1 X2 X3 X4 X5 X6 X7 X8 X9 X10 X11 X12 X13 X14.
+  pose proof (TT_set s s' i p old H Et) as TT.
+  assert (LEN : length (thrs s') = length (thrs s)) by (rewrite Et; apply set_nth_length).
   constructor; auto.
-  - rewrite En, Et, set_nth_length. exact B3.
+  - rewrite En, LEN. exact B4.
   - intros j pj. rewrite TT, En. destruct (Nat.eqb_spec i j) as [E|E].
-    + intros Q. inversion Q; subst. rewrite Ec. apply B4. exact H.
-    + apply B4.
+    + intros Q. inversion Q; subst. auto.
+    + apply B5.
   - rewrite TT. destruct (Nat.eqb_spec i 0) as [E|E].
-    + intros Q. inversion Q. apply X3; auto.
-    + intros Q. apply X4, B5, Q.
-  - intros c Hc. rewrite En, Et, set_nth_length. apply X5, Hc.
+    + intros Q. inversion Q. apply X4; auto.
+    + intros Q. apply X5, B6, Q.
+  - intros c Hc. rewrite En, LEN. apply X6, Hc.
+  - intros j pj. rewrite TT. destruct (Nat.eqb_spec i j) as [E|E].
+    + intros Q. inversion Q; subst. exact X8.
+    + intros Q I. eapply X7, B8; eassumption.
+  - intros j l q f a. rewrite TT. destruct (Nat.eqb_spec i j) as [E|E].
+    + intros Q. inversion Q. eapply X9; eauto.
+    + apply B9.
   - intros j l q a. rewrite TT. destruct (Nat.eqb_spec i j) as [E|E].
-    + intros Q. inversion Q. eapply X7; eauto.
-    + intros Q. eapply X6, B7, Q.
+    + intros Q. inversion Q. eapply X10; eauto.
+    + apply B10.
+  - intros w Hin. rewrite En, LEN. destruct X11 as [F|F]; rewrite F in Hin; [apply B11, Hin|contradiction].
+  - intros j pj. rewrite TT, En. destruct (Nat.eqb_spec i j) as [E|E].
+    + intros Q. inversion Q; subst. auto.
+    + intros Q L C. apply X13. eapply B12; eassumption.
+  - intros j pj. rewrite TT, En. destruct (Nat.eqb_spec i j) as [E|E].
+    + intros Q. inversion Q; subst. auto.
+    + apply B13.
+  - rewrite LEN. destruct X11 as [F|F]; rewrite F; [exact B14|cbn; lia].
 Qed.
+
+Lemma set_nth_same_id {A} (l : list A) : forall i x, nth_error l i = Some x -> set_nth l i x = l.
+Proof. induction l as [|y l IH]; intros [|i] x H; cbn in *; try discriminate; [inversion H; reflexivity|f_equal; auto]. Qed.
+Lemma plain_det p : in_stop p = false -> det_of p = false.
+Proof. destruct p; cbn; congruence. Qed.
 
 Lemma next_client_client i r : is_client (next_client i r) = true.
 Proof. unfold next_client. destruct r; [destruct (Nat.eqb i 0)|]; reflexivity. Qed.
-Lemma next_client_notdone0 r : next_client 0 r <> CDone.
-Proof. unfold next_client. destruct r; cbn; discriminate. Qed.
+Lemma next_client_plain i r : in_stop (next_client i r) = false /\ next_client i r <> WExit /\
+  (i = 0 -> next_client i r <> CDone).
+Proof. unfold next_client. destruct r; [destruct (Nat.eqb_spec i 0)|]; repeat split; try discriminate; intros; try discriminate; lia. Qed.
+Lemma job_next_plain r : in_stop (job_next r) = false /\ job_next r <> WExit /\ job_next r <> CDone /\ is_client (job_next r) = false.
+Proof. destruct r as [|[] r]; repeat split; discriminate. Qed.
 
-Lemma invb_stop_mark s i a old : InvB s -> T s i = Some old ->
-  is_client old = match a with AWorker _ => false | _ => true end ->
-  InvB (fst (stop_mark s i a)).
+(* who may be where: thread i's current pc tells whether it is a client thread *)
+Lemma client_lt s i p : InvB s -> T s i = Some p -> is_client p = true -> i < nclients s.
 Proof.
-  intros B H Ec. unfold stop_mark.
-  set (s1 := mkSt [] true [] (sleepers s) (destroyed s) (nclients s) (clos s) (thrs s)).
-  set (a' := match a with AWorker _ => AWorker (existsb (Nat.eqb i) (threads s)) | _ => a end).
-  assert (Ec' : is_client (pc_after i a') = is_client old).
-  { rewrite Ec. unfold a'. destruct a as [r| |d]; cbn [pc_after]; [apply next_client_client|reflexivity|].
-    destruct (existsb (Nat.eqb i) (threads s)); reflexivity. }
-  destruct (filter (fun w => negb (Nat.eqb w i)) (threads s)) as [|w l] eqn:F.
-  - pose proof (stop_end_shell s1 i (queue s) a' _ eq_refl) as (hq & he & ht & hk & hd & hn & hth & hb & hr & ho).
-    apply (invb_frame s _ i (pc_after i a') old B H).
-    + exact hth.
-    + exact hn.
-    + exact Ec'.
-    + intros _. rewrite hq, ht. unfold s1. cbn [queue threads]. destruct a'; auto.
-    + intros _. rewrite he. reflexivity.
-    + intros -> Q. rewrite hd. unfold a' in *. destruct a as [r| |d]; cbn [pc_after] in Q.
-      * exfalso. eapply next_client_notdone0, Q.
-      * reflexivity.
-      * destruct (existsb (Nat.eqb 0) (threads s)); discriminate.
-    + intros D. rewrite hd. destruct a'; auto.
-    + intros c. rewrite hr, ho. apply (b_ran s B).
-    + intros _. rewrite he. reflexivity.
-    + intros. rewrite he. reflexivity.
-  - cbn [fst]. apply (invb_frame s _ i (Join (w :: l) (queue s) a') old B H).
-    + reflexivity.
-    + reflexivity.
-    + rewrite Ec. unfold a'. destruct a; reflexivity.
-    + intros _. split; reflexivity.
-    + reflexivity.
-    + intros; discriminate.
-    + auto.
-    + apply (b_ran s B).
-    + reflexivity.
-    + reflexivity.
+  intros B H C. destruct (Nat.ltb_spec i (nclients s)); [assumption|].
+  destruct (b_class s B i p H) as [X _]. rewrite (X H0) in C. discriminate.
 Qed.
 
-Lemma invb_enqueue s i l k b p old : InvB s -> T s i = Some old -> is_client p = is_client old ->
-  (i = 0 -> p <> CDone) -> (forall l q a, p <> Join l q a) ->
+Lemma ranok_same s s' n m x : (forall c, G cran 0 s' c = G cran 0 s c) -> (forall c, G cran_on 0 s' c = G cran_on 0 s c) ->
+  RanOK s n m x -> RanOK s' n m x.
+Proof. intros E1 E2 R c. rewrite E1, E2. apply R. Qed.
+Lemma ranok_of s : InvB s -> RanOK s (length (thrs s)) (nclients s) (extw s).
+Proof. intros B. exact (b_ran s B). Qed.
+Lemma ranok_ext s n m x y : RanOK s n m x -> (forall z, In z x -> In z y) -> RanOK s n m y.
+Proof. intros R S c Hc. destruct (R c Hc) as [A [Bq|Bq]]; auto. Qed.
+
+(* a thread moves to a plain pc; nothing else changes *)
+Lemma invb_same s i p old : InvB s -> T s i = Some old ->
+  (nclients s <= i -> is_client p = false) -> (i < nclients s -> p <> WExit) -> (i = 0 -> p <> CDone) ->
+  (in_stop p = true -> in_stop old = true) ->
+  (forall l q f a, p = Join l q f a -> f = true) -> (forall l q a, p <> SWait l q a) ->
+  (is_client p = false -> is_client old = false) ->
+  (i < nclients s -> det_of p = false) ->
+  InvB (with_thr s i p).
+Proof.
+  intros B H P1 P2 P3 P4 P5 P6 P7 P8.
+  apply (invb_frame s _ i p old B H); unfold with_thr; cbn [queue exit_ stopped threads tokens woken destroyed nclients thrs extw]; auto.
+  - apply (b_exit s B).
+  - apply (b_destr s B).
+  - apply (b_stopped s B).
+  - intros E Q. exfalso. apply (P3 E Q).
+  - apply (ranok_same s); [reflexivity|reflexivity|exact (b_ran s B)].
+  - intros X. apply (b_join s B i old H). auto.
+  - intros l q a E. exfalso. eapply P6, E.
+  - intros L C. apply (b_ext s B i old H L). auto.
+Qed.
+
+Lemma invb_enqueue s i l k b p old : InvB s -> T s i = Some old ->
+  (nclients s <= i -> is_client p = false) -> (i < nclients s -> p <> WExit) -> (i = 0 -> p <> CDone) ->
+  in_stop p = false -> (is_client p = false -> is_client old = false) ->
   InvB (with_thr (fst (enqueue s i l k b)) i p).
 Proof.
-  intros B H Ec N0 NJ.
-  pose proof (enqueue_shell s i l k b _ eq_refl) as (hq & he & ht & hk & hd & hn & hth & hb & hr & ho).
-  apply (invb_frame s _ i p old B H); unfold with_thr; cbn [queue exit_ threads tokens destroyed nclients thrs].
+  intros B H P1 P2 P3 P4 P7.
+  destruct (enqueue_shell s i l k b _ eq_refl) as (hq & he & hs & ht & hk & hw & hd & hn & hth & hc & hx & hu & hl & hb & hr & ho).
+  set (s1 := fst (enqueue s i l k b)) in *.
+  apply (invb_frame s _ i p old B H); unfold with_thr; cbn [queue exit_ stopped threads tokens woken destroyed nclients thrs extw].
   - rewrite hth. reflexivity.
   - exact hn.
-  - exact Ec.
+  - exact P1.
+  - exact P2.
   - rewrite he, hq, ht. intros X. rewrite X. apply (b_exit s B X).
-  - rewrite he, hd. apply (b_destr s B).
-  - intros E Q. exfalso. apply (N0 E Q).
+  - rewrite he, hd, hs. apply (b_destr s B).
+  - rewrite he, hs. apply (b_stopped s B).
+  - intros E Q. exfalso. apply (P3 E Q).
   - rewrite hd. auto.
-  - intros c. unfold G. cbn [clos]. fold (G cran 0 (fst (enqueue s i l k b)) c) (G cran_on 0 (fst (enqueue s i l k b)) c).
-    rewrite hr, ho. destruct (Nat.eqb c (length (clos s))); [lia|apply (b_ran s B)].
+  - rewrite hx. intros c. unfold G. cbn [clos]. fold (G cran 0 s1 c) (G cran_on 0 s1 c).
+    rewrite hr, ho. destruct (Nat.eqb c (length (clos s))); [lia|exact (b_ran s B c)].
   - rewrite he. auto.
-  - intros l0 q0 a0 Q. exfalso. eapply NJ, Q.
+  - rewrite P4. discriminate.
+  - intros l0 q f a E. subst p. discriminate.
+  - intros l0 q a E. subst p. discriminate.
+  - left. exact ht.
+  - rewrite hx. intros L C. apply (b_ext s B i old H L). auto.
+  - rewrite hx. auto.
+  - intros _. apply plain_det, P4.
 Qed.
 
-Lemma invb_worker_cs s s' w old : InvB s -> T s w = Some old -> is_client old = false ->
-  clos s' = clos s -> queue s' = queue s -> thrs s' = thrs s -> exit_ s' = exit_ s -> threads s' = threads s ->
-  destroyed s' = destroyed s -> nclients s' = nclients s ->
-  InvB (fst (worker_cs s' w)).
+Lemma pc_after_class t a : is_client (pc_after t a) = is_client_after a.
+Proof. destruct a as [r| |[|] r]; cbn [pc_after is_client_after]; try reflexivity; [apply next_client_client|apply job_next_plain]. Qed.
+Lemma pc_after_plain t a : in_stop (pc_after t a) = false.
+Proof. destruct a as [r| |[|] r]; cbn [pc_after]; try reflexivity; [apply next_client_plain|apply job_next_plain]. Qed.
+Lemma fin_pc_class t f a : is_client (fin_pc t f a) = is_client_after a.
+Proof. destruct f; cbn [fin_pc is_client]; [reflexivity|apply pc_after_class]. Qed.
+
+(* the join loop ends (or never starts): common part of stop_mark / Join / SWait steps.
+   s0 is the state right after the critical section resp. the wake-up; the caller's old pc is `old`. *)
+Lemma invb_after_wait s s0 t l q first a old : InvB s -> T s t = Some old ->
+  thrs s0 = thrs s -> nclients s0 = nclients s -> clos s0 = clos s -> extw s0 = extw s ->
+  exit_ s0 = true -> queue s0 = [] -> threads s0 = [] -> destroyed s0 = destroyed s -> stopped s0 = stopped s ->
+  is_client old = is_client_after a ->
+  (l <> [] -> first = true) ->
+  (first = false -> is_dtor a = true -> stopped s = true) ->
+  (t = 0 -> first = false -> is_client_after a = true -> is_dtor a = true \/ pc_after t a <> CDone) ->
+  (nclients s <= t -> first = false -> pc_after t a <> WExit -> True) ->
+  (t < nclients s -> fin_pc t first a <> WExit) ->
+  (t < nclients s -> det_after a = false) ->
+  InvB (fst (after_wait s0 t l q first a)).
 Proof.
-  intros B H Ec Ecl Eq Et Ee Eth Ed En.
-  assert (WN : nclients s <= w < length (thrs s)).
-  { pose proof (T_lt s w old H). pose proof (b_class s B w old H) as [X Y].
-    split; [|assumption]. destruct (Nat.ltb_spec w (nclients s)); [|assumption]. rewrite (Y H1) in Ec. discriminate. }
-  assert (NZ : w = 0 -> False) by (pose proof (b_ncl s B); lia).
-  assert (GEN : forall p s2, is_client p = false -> (forall l q a, p <> Join l q a) ->
-            thrs s2 = thrs s' -> nclients s2 = nclients s' -> queue s2 = [] \/ exit_ s' = false -> threads s2 = threads s' ->
-            exit_ s2 = exit_ s' -> destroyed s2 = destroyed s' ->
-            (forall c, 1 <= G cran 0 s2 c -> nclients s <= G cran_on 0 s2 c < length (thrs s)) ->
+  intros B H Et En Ec Ex EX Q0 Th0 Ed Es Cl LF DS D0 _ NW DET.
+  destruct (after_wait_shell s0 t l q first a _ eq_refl) as (E & K & Q & D & Th).
+  set (s' := fst (after_wait s0 t l q first a)) in *.
+  destruct E as (e1 & e2 & e3 & e4 & e5 & e6 & e7 & e8 & e9).
+  destruct K as (k1 & k2 & k3 & k4).
+  set (p := match l with [] => fin_pc t first a | _ => Join l q first a end) in *.
+  assert (PC : is_client p = is_client_after a).
+  { unfold p. destruct l; [apply fin_pc_class|reflexivity]. }
+  apply (invb_frame s _ t p old B H).
+  - rewrite Th, Et. reflexivity.
+  - congruence.
+  - intros L. rewrite PC, <- Cl. apply (b_class s B t old H). exact L.
+  - intros L. unfold p. destruct l; [apply NW, L|discriminate].
+  - intros _. rewrite Q, e3, Q0, Th0. destruct (_ && _ && _); auto.
+  - rewrite D, e1, e2, EX, Es, Ed. destruct l as [|w l]; cbn [andb].
+    + destruct first; cbn [negb andb].
+      * intros X. split; [reflexivity|]. apply (b_destr s B X).
+      * destruct (is_dtor a) eqn:DA.
+        -- intros _. split; [reflexivity|]. apply DS; reflexivity.
+        -- intros X. split; [reflexivity|]. apply (b_destr s B X).
+    + intros X. split; [reflexivity|]. apply (b_destr s B X).
+  - rewrite e1, EX. auto.
+  - intros -> Qp. rewrite D, Ed. unfold p in Qp. destruct l as [|w l]; [|discriminate]. cbn [andb].
+    destruct first; cbn [fin_pc] in Qp; [discriminate|]. cbn [negb andb].
+    destruct a as [r| |d r]; cbn [is_dtor].
+    + exfalso. destruct (D0 eq_refl eq_refl eq_refl) as [X|X]; [discriminate|]. apply X, Qp.
+    + reflexivity.
+    + cbn [pc_after] in Qp. destruct d; [discriminate|]. exfalso. apply (job_next_plain r). exact Qp.
+  - rewrite D, Ed. intros X. rewrite X. destruct (_ && _ && _); reflexivity.
+  - rewrite e8, Ex. apply (ranok_same s0).
+    + exact k2.
+    + exact k3.
+    + intros c. unfold G. rewrite Ec. exact (b_ran s B c).
+  - rewrite e1, EX. auto.
+  - rewrite e1, EX. auto.
+  - intros l0 q0 f a0 E. unfold p in E. destruct l as [|w l].
+    + exfalso. destruct first; cbn [fin_pc] in E; [discriminate|]. pose proof (pc_after_plain t a) as X. rewrite E in X. discriminate.
+    + inversion E; subst. apply LF. discriminate.
+  - intros l0 q0 a0 E. exfalso. unfold p in E. destruct l as [|w l]; [|discriminate].
+    destruct first; cbn [fin_pc] in E; [discriminate|]. pose proof (pc_after_plain t a) as X. rewrite E in X. discriminate.
+  - right. rewrite e3. exact Th0.
+  - rewrite e8, Ex, PC, <- Cl. intros L C. apply (b_ext s B t old H L C).
+  - rewrite e8, Ex. auto.
+  - intros L. unfold p. destruct l as [|w l]; [|cbn [det_of]; apply DET, L].
+    destruct first; cbn [fin_pc det_of]; [apply DET, L|]. apply plain_det, pc_after_plain.
+Qed.
+
+Lemma filter_ne_in (t : nat) (l : list nat) w : In w (filter (fun x => negb (Nat.eqb x t)) l) -> w <> t /\ In w l.
+Proof.
+  intros H. apply filter_In in H. destruct H as [H1 H2]. split; [|exact H1].
+  intros ->. rewrite Nat.eqb_refl in H2. discriminate.
+Qed.
+
+Lemma existsb_eqb_false t l : (forall w, In w l -> w <> t) -> existsb (Nat.eqb t) l = false.
+Proof.
+  induction l as [|x l IH]; intros F; [reflexivity|]. cbn [existsb].
+  destruct (Nat.eqb_spec t x) as [E|E]; [exfalso; apply (F x); [left; reflexivity|auto]|].
+  cbn. apply IH. intros w Hw. apply F. right. exact Hw.
+Qed.
+
+Lemma invb_stop_mark s t a old : InvB s -> T s t = Some old -> is_client old = is_client_after a ->
+  in_stop old = false ->
+  InvB (fst (stop_mark s t a)).
+Proof.
+  intros B H Cl NS. unfold stop_mark.
+  set (s1 := marked s (sleeper_ids s)).
+  set (a' := match a with AWorker _ r => AWorker (existsb (Nat.eqb t) (threads s)) r | _ => a end).
+  set (l := filter (fun w => negb (Nat.eqb w t)) (threads s)).
+  assert (CA : is_client_after a' = is_client_after a) by (unfold a'; destruct a; reflexivity).
+  assert (CU : is_cur a' = is_cur a) by (unfold a'; destruct a; reflexivity).
+  assert (DT : is_dtor a' = is_dtor a) by (unfold a'; destruct a; reflexivity).
+  assert (NF : exit_ s = true -> l = [] /\ queue s = []).
+  { intros X. destruct (b_exit s B X) as [Q Th]. unfold l. rewrite Th. auto. }
+  assert (DETA : t < nclients s -> det_after a' = false).
+  { intros L. unfold a'. destruct a as [r0| |d r0]; cbn [det_after]; auto.
+    rewrite existsb_eqb_false; auto. intros w Hw E. subst w. pose proof (b_thr s B t Hw). lia. }
+  destruct (negb (negb (exit_ s)) && negb (is_cur a) && negb (stopped s)) eqn:COND.
+  - (* waits for the first stop *)
+    apply andb_prop in COND. destruct COND as [COND C3]. apply andb_prop in COND. destruct COND as [C1 C2].
+    assert (X : exit_ s = true) by (destruct (exit_ s); [reflexivity|discriminate]).
+    destruct (NF X) as [L0 Q0].
+    cbn [fst]. apply (invb_frame s _ t (SWait l (queue s) a') old B H); unfold with_thr, s1, marked;
+      cbn [queue exit_ stopped threads tokens woken destroyed nclients thrs extw].
+    + reflexivity.
+    + reflexivity.
+    + intros L. cbn [is_client]. rewrite CA, <- Cl. apply (b_class s B t old H). exact L.
+    + discriminate.
+    + auto.
+    + intros D. split; [reflexivity|]. apply (b_destr s B D).
+    + auto.
+    + discriminate.
+    + auto.
+    + apply (ranok_same s); [reflexivity|reflexivity|exact (b_ran s B)].
+    + auto.
+    + auto.
+    + discriminate.
+    + intros l0 q0 a0 E. inversion E; subst. rewrite L0, Q0, CU. destruct (is_cur a); [discriminate|auto].
+    + right. reflexivity.
+    + cbn [is_client]. rewrite CA, <- Cl. intros L C. apply (b_ext s B t old H L C).
+    + auto.
+    + intros L. cbn [det_of]. apply DETA, L.
+  - apply (invb_after_wait s s1 t l (queue s) (negb (exit_ s)) a' old B H); try reflexivity.
+    + congruence.
+    + intros LN. destruct (exit_ s) eqn:X; [|reflexivity]. destruct (NF eq_refl) as [L0 _]. contradiction.
+    + intros F D. rewrite DT in D. destruct (exit_ s); [|discriminate]. cbn [negb andb] in COND.
+      destruct a; try discriminate. cbn [is_cur negb andb] in COND. destruct (stopped s); [reflexivity|discriminate].
+    + intros -> F C. unfold a'. destruct a as [r| |d r]; [right|left; reflexivity|discriminate].
+      cbn [pc_after]. apply next_client_plain. reflexivity.
+    + intros L. destruct (negb (exit_ s)); cbn [fin_pc]; [discriminate|].
+      unfold a'. destruct a as [r| |d r]; cbn [pc_after].
+      * apply next_client_plain.
+      * discriminate.
+      * rewrite existsb_eqb_false; [apply job_next_plain|]. intros w Hw E. subst w. pose proof (b_thr s B t Hw). lia.
+    + exact DETA.
+Qed.
+
+Lemma exit_pc_props s w : InvB s ->
+  (nclients s <= w -> is_client (exit_pc s w) = false) /\ (w < nclients s -> exit_pc s w <> WExit) /\
+  (w = 0 -> exit_pc s w <> CDone) /\ in_stop (exit_pc s w) = false /\
+  (is_client (exit_pc s w) = false -> nclients s <= w).
+Proof.
+  intros B. unfold exit_pc. pose proof (b_ncl s B) as N. destruct (Nat.ltb_spec w (nclients s)) as [L|L].
+  - destruct (next_client_plain w (nth w (cont s) [])) as (X1 & X2 & X3).
+    repeat split; auto; try lia. rewrite next_client_client. discriminate.
+  - repeat split; auto; try lia; try discriminate.
+Qed.
+
+(* the loop body of worker(); s0 is s or s after the wake-up / after entering worker() *)
+Lemma invb_worker_cs s s0 w old : InvB s -> T s w = Some old ->
+  clos s0 = clos s -> queue s0 = queue s -> thrs s0 = thrs s -> exit_ s0 = exit_ s -> threads s0 = threads s ->
+  destroyed s0 = destroyed s -> nclients s0 = nclients s -> stopped s0 = stopped s -> cont s0 = cont s \/ True ->
+  (forall z, In z (extw s) -> In z (extw s0)) ->
+  (w < nclients s -> In w (extw s0)) -> in_stop old = false ->
+  InvB (fst (worker_cs s0 w)).
+Proof.
+  intros B H Ecl Eq Et Ee Eth Ed En Es _ Ex1 Ex2 NS.
+  pose proof (T_lt s w old H) as WL.
+  assert (B0ncl : nclients s0 = nclients s) by exact En.
+  assert (GEN : forall p s2, thrs s2 = thrs s0 -> nclients s2 = nclients s0 -> threads s2 = threads s0 ->
+            exit_ s2 = exit_ s0 -> destroyed s2 = destroyed s0 -> stopped s2 = stopped s0 -> extw s2 = extw s0 ->
+            (queue s2 = [] \/ exit_ s0 = false) ->
+            (nclients s <= w -> is_client p = false) -> (w < nclients s -> p <> WExit) -> (w = 0 -> p <> CDone) ->
+            in_stop p = false ->
+            RanOK s2 (length (thrs s)) (nclients s) (extw s0) ->
             InvB (with_thr s2 w p)).
-  { intros p s2 Pc NJ E1 E2 E3 E4 E5 E6 E7.
-    apply (invb_frame s _ w p old B H); unfold with_thr; cbn [queue exit_ threads tokens destroyed nclients thrs].
+  { intros p s2 E1 E2 E3 E4 E5 E6 E7 E8 P1 P2 P3 P4 R.
+    apply (invb_frame s _ w p old B H); unfold with_thr; cbn [queue exit_ stopped threads tokens woken destroyed nclients thrs extw].
     - rewrite E1, Et. reflexivity.
     - congruence.
-    - congruence.
-    - rewrite E5, E4, Eth. intros X. destruct E3 as [E3|E3]; [|congruence]. split; [exact E3|].
+    - exact P1.
+    - exact P2.
+    - rewrite E4, E3, Eth. intros X. destruct E8 as [E8|E8]; [|congruence]. split; [exact E8|].
       apply (b_exit s B). congruence.
-    - rewrite E6, E5, Ed, Ee. apply (b_destr s B).
-    - intros E. exfalso. auto.
-    - rewrite E6, Ed. auto.
-    - intros c. unfold G. cbn [clos]. apply E7.
-    - rewrite E5, Ee. auto.
-    - intros l q a Q. exfalso. eapply NJ, Q. }
-  assert (RAN : forall c, 1 <= G cran 0 s' c -> nclients s <= G cran_on 0 s' c < length (thrs s)).
-  { intros c. unfold G. rewrite Ecl. apply (b_ran s B). }
-  unfold worker_cs. destruct (exit_ s') eqn:EX.
-  - cbn [fst]. apply GEN; auto; try discriminate.
-    left. rewrite Eq. apply (b_exit s B). congruence.
-  - destruct (queue s') as [|c0 r] eqn:QQ.
-    + cbn [fst]. apply GEN; auto; discriminate.
-    + unfold run_job. replace (clos (with_queue s' r)) with (clos s') by reflexivity.
-      destruct (nth_error (clos s') c0) as [x|] eqn:E.
-      * cbn [fst].
-        apply (GEN (job_pc (cb x)) (with_clos (with_queue s' r) (set_nth (clos s') c0
+    - rewrite E5, E4, E6, Ed, Ee, Es. apply (b_destr s B).
+    - rewrite E6, E4, Es, Ee. apply (b_stopped s B).
+    - intros E Q. exfalso. apply (P3 E Q).
+    - rewrite E5, Ed. auto.
+    - rewrite E7. intros c. unfold G. cbn [clos]. apply R.
+    - rewrite E4, Ee. auto.
+    - rewrite P4. discriminate.
+    - intros l q f a E. subst p. discriminate.
+    - intros l q a E. subst p. discriminate.
+    - left. congruence.
+    - rewrite E7. intros L _. apply Ex2, L.
+    - rewrite E7. exact Ex1.
+    - intros _. apply plain_det, P4. }
+  assert (RAN : RanOK s0 (length (thrs s)) (nclients s) (extw s0)).
+  { apply (ranok_ext s0 _ _ (extw s)); [|exact Ex1]. intros c. unfold G. rewrite Ecl. exact (b_ran s B c). }
+  unfold worker_cs. destruct (exit_ s0) eqn:EX.
+  - cbn [fst].
+    assert (EP : exit_pc s0 w = exit_pc s w \/ True) by auto.
+    destruct (exit_pc_props s w B) as (X1 & X2 & X3 & X4 & X5).
+    assert (EPQ : forall P : pc -> Prop, (nclients s0 = nclients s) -> True) by auto.
+    unfold exit_pc. rewrite En.
+    destruct (Nat.ltb_spec w (nclients s)) as [L|L].
+    + destruct (next_client_plain w (nth w (cont s0) [])) as (Y1 & Y2 & Y3).
+      apply GEN; auto; try lia. left. rewrite Eq. apply (b_exit s B). congruence.
+    + apply GEN; auto; try discriminate; try lia. left. rewrite Eq. apply (b_exit s B). congruence.
+  - destruct (queue s0) as [|c0 r] eqn:QQ.
+    + cbn [fst]. apply GEN; auto; try discriminate.
+    + unfold run_job. replace (clos (with_queue s0 r)) with (clos s0) by reflexivity.
+      destruct (nth_error (clos s0) c0) as [x|] eqn:E.
+      * cbn [fst]. destruct (job_next_plain (cb x)) as (J1 & J2 & J3 & J4).
+        apply (GEN (job_next (cb x)) (with_clos (with_queue s0 r) (set_nth (clos s0) c0
                  (mkClo (clbl x) (ck x) (cb x) (S (cran x)) w (cdrop x) (ccanc x))))); auto.
-        -- destruct (cb x); reflexivity.
-        -- destruct (cb x); discriminate.
-        -- intros c. unfold G. unfold with_clos. cbn [clos].
-           assert (L : c0 < length (clos s')) by (apply nth_error_Some; congruence).
-           destruct (Nat.eqb_spec c0 c) as [Q|Q].
-           ++ subst c. rewrite nth_error_set_nth_same by exact L. cbn [cran cran_on]. intros _. exact WN.
-           ++ rewrite nth_error_set_nth_other by exact Q. exact (RAN c).
-      * cbn [fst]. apply (GEN WIdle (with_queue s' r)); auto; discriminate.
+        intros c. unfold G. unfold with_clos. cbn [clos].
+        assert (L : c0 < length (clos s0)) by (apply nth_error_Some; congruence).
+        destruct (Nat.eqb_spec c0 c) as [Q|Q].
+        -- subst c. rewrite nth_error_set_nth_same by exact L. cbn [cran cran_on]. intros _.
+           split; [exact WL|]. destruct (Nat.ltb_spec w (nclients s)); [right; auto|left; assumption].
+        -- rewrite nth_error_set_nth_other by exact Q. exact (RAN c).
+      * cbn [fst]. apply (GEN WIdle (with_queue s0 r)); auto; discriminate.
 Qed.
 
-Theorem invb_step s i : InvB s -> enabled s i = true -> InvB (step s i).
+(* InvB does not read tokens / woken *)
+Lemma inv_b_wake s i : InvB s -> InvB (wake s i).
 Proof.
-  intros B EN. unfold step, tstep. unfold enabled in EN.
+  intros [B1 B2 B3 B4 B5 B6 B7 B8 B9 B10 B11 B12 B13 B14].
+  unfold wake. destruct (is_woken s i); constructor; auto.
+Qed.
+
+Lemma invb_plain s i p old : InvB s -> T s i = Some old -> in_stop p = false ->
+  (nclients s <= i -> is_client p = false) -> (i < nclients s -> p <> WExit) -> (i = 0 -> p <> CDone) ->
+  (is_client p = false -> is_client old = false) -> InvB (with_thr s i p).
+Proof.
+  intros B H NS P1 P2 P3 P7. apply (invb_same s i p old B H); auto.
+  - rewrite NS. discriminate.
+  - intros l q f a E. rewrite E in NS. discriminate.
+  - intros l q a E. rewrite E in NS. discriminate.
+  - intros _. apply plain_det, NS.
+Qed.
+
+Theorem invb_core s i : InvB s -> enabled s i = true -> InvB (cstep s i).
+Proof.
+  intros B EN. unfold cstep, core. unfold enabled in EN.
   destruct (nth_error (thrs s) i) as [p|] eqn:H; [|discriminate].
-  assert (SAME : forall p', is_client p' = is_client p -> (i = 0 -> p' <> CDone) ->
-                  (forall l q a, p' = Join l q a -> exit_ s = true) -> InvB (with_thr s i p')).
-  { intros p' E N J. apply (invb_frame s _ i p' p B H); unfold with_thr; cbn [queue exit_ threads tokens destroyed nclients thrs]; auto.
-    - apply (b_exit s B). - apply (b_destr s B). - intros E0 Q. exfalso. apply (N E0 Q). - apply (b_ran s B). }
-  destruct p as [prog| | | | | |l k| | |l q a].
-  - destruct prog as [|[l k b|] r].
-    + cbn [fst]. apply SAME; [apply next_client_client|intros ->; apply next_client_notdone0|].
-      intros l q a Q. unfold next_client in Q. destruct (Nat.eqb i 0); discriminate.
+  pose proof (b_class s B i p H) as [CL1 CL2].
+  destruct p as [prog| | | | | |l k r|l r|l r|r|q r| |l q f a|l q a|a].
+  - (* client operation *)
+    assert (LT : i < nclients s) by (apply (client_lt s i _ B H); reflexivity).
+    destruct prog as [|[l k b| |] r].
+    + cbn [fst]. destruct (next_client_plain i []) as (X1 & X2 & X3).
+      apply (invb_plain s i _ (CAt []) B H); auto; try lia. rewrite next_client_client. discriminate.
     + pose proof (invb_enqueue s i l k b (next_client i r) _ B H) as E.
-      destruct (enqueue s i l k b) as [s1 e]. cbn [fst] in *.
-      apply E; [apply next_client_client|intros ->; apply next_client_notdone0|].
-      intros l0 q0 a0 Q. unfold next_client in Q. destruct r; [destruct (Nat.eqb i 0)|]; discriminate.
+      destruct (enqueue s i l k b) as [s1 e]. cbn [fst] in *. destruct (next_client_plain i r) as (X1 & X2 & X3).
+      apply E; auto; try lia. rewrite next_client_client. discriminate.
     + pose proof (invb_stop_mark s i (AClient r) _ B H) as E.
       destruct (stop_mark s i (AClient r)) as [s1 e]. cbn [fst] in *. apply E; auto.
-  - cbn [fst]. apply SAME; [reflexivity|discriminate|discriminate].
+    + pose proof (invb_worker_cs s (with_ext s i r) i _ B H) as E.
+      destruct (worker_cs (with_ext s i r) i) as [s1 e]. cbn [fst] in *.
+      apply E; auto; unfold with_ext; cbn [extw]; intros; try (right; assumption); left; reflexivity.
+  - cbn [fst]. apply (invb_plain s i CDtor CXWait B H); auto; try discriminate.
   - pose proof (invb_stop_mark s i ADtor _ B H) as E.
     destruct (stop_mark s i ADtor) as [s1 e]. cbn [fst] in *. apply E; auto.
   - discriminate.
   - pose proof (invb_worker_cs s s i WIdle B H) as E.
-    destruct (worker_cs s i) as [s1 e]. cbn [fst] in *. apply E; reflexivity.
-  - pose proof (invb_worker_cs s (with_tokens s (pred (tokens s))) i WSleep B H) as E.
-    destruct (worker_cs (with_tokens s (pred (tokens s))) i) as [s1 e]. cbn [fst] in *. apply E; reflexivity.
-  - pose proof (invb_enqueue s i l k BNone WIdle _ B H) as E.
-    destruct (enqueue s i l k BNone) as [s1 e]. cbn [fst] in *. apply E; [reflexivity|discriminate|discriminate].
-  - pose proof (invb_stop_mark s i (AWorker false) _ B H) as E.
-    destruct (stop_mark s i (AWorker false)) as [s1 e]. cbn [fst] in *. apply E; auto.
+    destruct (worker_cs s i) as [s1 e]. cbn [fst] in *. apply E; auto.
+    intros L. apply (b_ext s B i WIdle H L). reflexivity.
+  - pose proof (invb_worker_cs s (wake s i) i WSleep B H) as E.
+    destruct (worker_cs (wake s i) i) as [s1 e]. cbn [fst] in *.
+    assert (WX : extw (wake s i) = extw s) by (unfold wake; destruct (is_woken s i); reflexivity).
+    apply E; auto; try (unfold wake; destruct (is_woken s i); reflexivity).
+    + rewrite WX. auto.
+    + rewrite WX. intros L. apply (b_ext s B i WSleep H L). reflexivity.
+  - pose proof (invb_enqueue s i l k [] (job_next r) _ B H) as E.
+    destruct (enqueue s i l k []) as [s1 e]. cbn [fst] in *. destruct (job_next_plain r) as (J1 & J2 & J3 & J4).
+    apply E; auto.
+  - pose proof (invb_enqueue s i l KHop r WIdle _ B H) as E.
+    destruct (enqueue s i l KHop r) as [s1 e]. cbn [fst] in *. apply E; auto; discriminate.
+  - cbn [fst]. destruct (job_next_plain r) as (J1 & J2 & J3 & J4).
+    apply (invb_plain s i _ (WPeek l r) B H); destruct (exit_ s); auto; discriminate.
+  - pose proof (invb_stop_mark s i (AWorker false r) _ B H) as E.
+    destruct (stop_mark s i (AWorker false r)) as [s1 e]. cbn [fst] in *. apply E; auto.
+  - cbn [fst]. destruct (job_next_plain r) as (J1 & J2 & J3 & J4).
+    apply (invb_plain s i _ (WQry q r) B H); auto.
   - discriminate.
-  - assert (EXT : exit_ s = true) by (eapply (b_join s B); exact H).
-    assert (SE : InvB (fst (stop_end s i q a))).
-    { pose proof (stop_end_shell s i q a _ eq_refl) as (hq & he & ht & hk & hd & hn & hth & hb & hr & ho).
-      apply (invb_frame s _ i (pc_after i a) _ B H).
-      - exact hth.
-      - exact hn.
-      - destruct a as [r| |[|]]; cbn [pc_after is_client]; auto. apply next_client_client.
-      - rewrite hq, ht. intros _. destruct (b_exit s B EXT) as [X1 X2]. rewrite X1, X2. destruct a; auto.
-      - rewrite he. auto.
-      - intros -> Q. rewrite hd. destruct a as [r| |[|]]; cbn [pc_after] in Q; try discriminate; auto.
-        exfalso. eapply next_client_notdone0, Q.
-      - rewrite hd. destruct a; auto.
-      - intros c. rewrite hr, ho. apply (b_ran s B).
-      - rewrite he. auto.
-      - intros. rewrite he. exact EXT. }
+  - (* join loop *)
+    assert (EXT : exit_ s = true) by (apply (b_join s B i _ H); reflexivity).
+    destruct (b_exit s B EXT) as [Q0 Th0].
+    assert (F : f = true) by (eapply (b_first s B); exact H). subst f.
+    assert (DT : i < nclients s -> det_after a = false) by (intros L; apply (b_det s B i _ H L)).
+    assert (SE : InvB (fst (after_wait s i [] q true a))).
+    { apply (invb_after_wait s s i [] q true a _ B H); auto; try discriminate. }
     destruct l as [|w0 [|w1 l]].
-    + destruct (stop_end s i q a) as [s1 e]. exact SE.
-    + destruct (stop_end s i q a) as [s1 e]. exact SE.
-    + cbn [fst]. apply SAME; [reflexivity|discriminate|]. intros; exact EXT.
+    + unfold after_wait in SE. destruct (stop_end s i q true a) as [s1 e]. exact SE.
+    + unfold after_wait in SE. destruct (stop_end s i q true a) as [s1 e]. exact SE.
+    + cbn [fst]. apply (invb_same s i _ (Join (w0 :: w1 :: l) q true a) B H); auto; try discriminate.
+      intros l0 q0 f a0 E. inversion E. reflexivity.
+  - (* woken inside stop() *)
+    assert (EXT : exit_ s = true) by (apply (b_join s B i _ H); reflexivity).
+    destruct (b_exit s B EXT) as [Q0 Th0].
+    destruct (b_swait s B i l q a H) as (L0 & Q1 & CU). subst l q.
+    assert (DT : i < nclients s -> det_after a = false) by (intros L; apply (b_det s B i _ H L)).
+    assert (WK : forall A (f : st -> A), (forall x n, f (with_tokens x n) = f x) -> (forall x w, f (with_woken x w) = f x) -> f (wake s i) = f s).
+    { intros A f F1 F2. unfold wake. destruct (is_woken s i); auto. }
+    destruct (stopped s) eqn:ST.
+    + pose proof (invb_after_wait s (wake s i) i [] [] false a _ B H) as E.
+      destruct (after_wait (wake s i) i [] [] false a) as [s1 e]. cbn [fst] in *.
+      assert (W1 : thrs (wake s i) = thrs s) by (apply WK; reflexivity).
+      assert (W2 : nclients (wake s i) = nclients s) by (apply WK; reflexivity).
+      assert (W3 : clos (wake s i) = clos s) by (apply WK; reflexivity).
+      assert (W4 : extw (wake s i) = extw s) by (apply WK; reflexivity).
+      assert (W5 : exit_ (wake s i) = exit_ s) by (apply WK; reflexivity).
+      assert (W6 : queue (wake s i) = queue s) by (apply WK; reflexivity).
+      assert (W7 : threads (wake s i) = threads s) by (apply WK; reflexivity).
+      assert (W8 : destroyed (wake s i) = destroyed s) by (apply WK; reflexivity).
+      assert (W9 : stopped (wake s i) = stopped s) by (apply WK; reflexivity).
+      apply E; auto; try congruence.
+      * intros -> _ C. destruct a as [r| |d r]; [right|left; reflexivity|discriminate C]. cbn [pc_after]. apply next_client_plain. reflexivity.
+      * intros L. cbn [fin_pc]. destruct a as [r| |d r]; cbn [pc_after]; try discriminate. apply next_client_plain.
+    + cbn [fst]. apply (inv_b_wake s i). exact B.
+  - (* the first stop sets _stopped *)
+    assert (EXT : exit_ s = true) by (apply (b_join s B i _ H); reflexivity).
+    destruct (b_exit s B EXT) as [Q0 Th0].
+    assert (DT : i < nclients s -> det_after a = false) by (intros L; apply (b_det s B i _ H L)).
+    destruct (returned_shell (finished s (sleeper_ids s)) i a _ eq_refl) as (E & K & Q & D & Th).
+    destruct (returned (finished s (sleeper_ids s)) i a) as [s1 e]. cbn [fst] in *.
+    destruct E as (e1 & e2 & e3 & e4 & e5 & e6 & e7 & e8 & e9). destruct K as (k1 & k2 & k3 & k4).
+    unfold finished in *. cbn [queue exit_ stopped threads tokens woken destroyed nclients thrs extw cont uad clos] in *.
+    apply (invb_frame s _ i (pc_after i a) (SFin a) B H); auto.
+    + intros L. rewrite pc_after_class. apply CL1, L.
+    + intros L. destruct a as [r| |d r]; cbn [pc_after]; try discriminate; [apply next_client_plain|].
+      specialize (DT L). cbn [det_after] in DT. destruct d; [discriminate DT|]. apply job_next_plain.
+    + rewrite Q, e3. intros _. rewrite Q0, Th0. destruct (is_dtor a); auto.
+    + rewrite D, e1, e2. intros _. auto.
+    + rewrite e1. auto.
+    + intros -> Qp. rewrite D. destruct a as [r| |d r]; cbn [is_dtor pc_after] in *; auto.
+      * exfalso. destruct (next_client_plain 0 r) as (_ & _ & X). apply (X eq_refl Qp).
+      * destruct d; [discriminate|]. exfalso. eapply job_next_plain, Qp.
+    + rewrite D. intros X. rewrite X. destruct (is_dtor a); reflexivity.
+    + rewrite e8. apply (ranok_same s); [exact k2|exact k3|exact (b_ran s B)].
+    + rewrite e1. auto.
+    + rewrite e1. auto.
+    + intros l0 q0 f0 a0 E. pose proof (pc_after_plain i a) as X. rewrite E in X. discriminate.
+    + intros l0 q0 a0 E. pose proof (pc_after_plain i a) as X. rewrite E in X. discriminate.
+    + rewrite e8, pc_after_class. intros L C. apply (b_ext s B i _ H L C).
+    + rewrite e8. auto.
+    + intros _. apply plain_det, pc_after_plain.
 Qed.
 
-Lemma init_thrs_shape ops : exists m cl n, 0 < m /\ length cl = m /\ nclients (init ops) = m /\
-  thrs (init ops) = cl ++ repeat WIdle n /\
+Lemma invb_uad s b : InvB s -> InvB (with_uad s b).
+Proof. intros [B1 B2 B3 B4 B5 B6 B7 B8 B9 B10 B11 B12 B13 B14]. constructor; auto. Qed.
+
+Theorem invb_step s i : InvB s -> enabled s i = true -> InvB (step s i).
+Proof.
+  intros B EN. pose proof (invb_core s i B EN) as C.
+  destruct (step_core s i) as [-> | ->]; [exact C|apply invb_uad, C].
+Qed.
+
+Lemma init_shape ops : exists m cl n, 0 < m /\ 1 <= n /\ length cl = m /\ nclients (init ops) = m /\
+  thrs (init ops) = cl ++ repeat WIdle n /\ threads (init ops) = seq m n /\
+  queue (init ops) = [] /\ exit_ (init ops) = false /\ stopped (init ops) = false /\ destroyed (init ops) = false /\
+  tokens (init ops) = 0 /\ woken (init ops) = [] /\ clos (init ops) = [] /\ extw (init ops) = [] /\ uad (init ops) = false /\
   (forall i p, nth_error cl i = Some p -> exists r, p = next_client i r).
 Proof.
   unfold init. set (d := decode ops). set (m := Nat.min (S (dmax d)) 3).
@@ -798,39 +1163,526 @@ Proof.
     inversion X. reflexivity.
 Qed.
 
+Lemma init_cls ops : forall i p, T (init ops) i = Some p ->
+  (i < nclients (init ops) /\ exists r, p = next_client i r) \/ (nclients (init ops) <= i /\ p = WIdle).
+Proof.
+  destruct (init_shape ops) as (m & cl & n & M & N & LC & NC & TH & _ & _ & _ & _ & _ & _ & _ & _ & _ & _ & SH).
+  intros i p H. unfold T in H. rewrite TH in H. rewrite NC. destruct (Nat.ltb_spec i m) as [L|L].
+  - left. split; [exact L|]. rewrite nth_error_app1 in H by lia. eapply SH, H.
+  - right. split; [exact L|]. rewrite nth_error_app2 in H by lia. apply nth_error_In, repeat_spec in H. exact H.
+Qed.
+
 Lemma invb_init ops : InvB (init ops).
 Proof.
-  destruct (init_thrs_shape ops) as (m & cl & n & M & LC & NC & TH & SH).
-  assert (CLS : forall i p, T (init ops) i = Some p ->
-            (i < m /\ exists r, p = next_client i r) \/ (m <= i /\ p = WIdle)).
-  { intros i p H. unfold T in H. rewrite TH in H. destruct (Nat.ltb_spec i m) as [L|L].
-    - left. split; [exact L|]. rewrite nth_error_app1 in H by lia. eapply SH, H.
-    - right. split; [exact L|]. rewrite nth_error_app2 in H by lia. apply nth_error_In, repeat_spec in H. exact H. }
+  destruct (init_shape ops) as (m & cl & n & M & N & LC & NC & TH & THR & Q & EX & ST & DE & TK & WK & CLO & XW & UA & SH).
+  pose proof (init_cls ops) as CLS.
+  assert (PLAIN : forall i p, T (init ops) i = Some p -> in_stop p = false /\ p <> WExit).
+  { intros i p H. destruct (CLS i p H) as [(L & r & ->)|(L & ->)]; [|split; [reflexivity|discriminate]].
+    destruct (next_client_plain i r) as (X1 & X2 & _). auto. }
   constructor.
-  - unfold init. cbn [exit_]. discriminate.
-  - unfold init. cbn [destroyed]. discriminate.
+  - rewrite EX. discriminate.
+  - rewrite DE. discriminate.
+  - rewrite ST. discriminate.
   - rewrite NC, TH, app_length, LC. lia.
-  - intros i p H. rewrite NC. destruct (CLS i p H) as [(L & r & ->)|(L & ->)].
-    + rewrite next_client_client. tauto.
-    + cbn [is_client]. split; [discriminate|lia].
+  - intros i p H. destruct (CLS i p H) as [(L & r & ->)|(L & ->)].
+    + split; [lia|]. intros _. apply next_client_plain.
+    + split; [reflexivity|lia].
   - intros H. destruct (CLS 0 _ H) as [(L & r & E)|(L & E)]; [|discriminate].
-    exfalso. eapply next_client_notdone0. symmetry. exact E.
-  - intros c. unfold init, G. cbn [clos]. destruct c; cbn; lia.
-  - intros i l q a H. destruct (CLS i _ H) as [(L & r & E)|(L & E)]; [|discriminate].
-    unfold next_client in E. destruct r; [destruct (Nat.eqb i 0)|]; discriminate.
+    exfalso. destruct (next_client_plain 0 r) as (_ & _ & X). apply (X eq_refl). symmetry. exact E.
+  - intros c. unfold G. rewrite CLO. destruct c; cbn; lia.
+  - intros i p H I. destruct (PLAIN i p H) as [X _]. congruence.
+  - intros i l q f a H. destruct (PLAIN i _ H) as [X _]. discriminate.
+  - intros i l q a H. destruct (PLAIN i _ H) as [X _]. discriminate.
+  - intros w Hin. rewrite THR in Hin. apply in_seq in Hin. rewrite NC, TH, app_length, repeat_length. lia.
+  - intros i p H L C. destruct (CLS i p H) as [(_ & r & ->)|(L2 & _)]; [|lia]. rewrite next_client_client in C. discriminate.
+  - intros i p H L. apply plain_det. apply (PLAIN i p H).
+  - rewrite THR, TH, seq_length, app_length, repeat_length. lia.
 Qed.
 
 Theorem invb_reachable ops s : reachable ops s -> InvB s.
 Proof. induction 1; [apply invb_init|apply invb_step; assumption]. Qed.
 
-(* ---------- the statements of C11 ---------- *)
-Definition terminal (s : st) : Prop := forall i p, T s i = Some p -> p = CDone \/ p = WExit.
+(* ---------- invariant U: who joins whom; nothing is left running when the destructor returns ---------- *)
+Definition stopper (p : pc) : bool := match p with Join _ _ _ _ | SFin _ => true | _ => false end.
+Definition after_of (p : pc) : option after := match p with Join _ _ _ a | SWait _ _ a | SFin a => Some a | _ => None end.
+Definition dtor_phase (p : pc) : bool :=
+  match p with CDtor => true | _ => match after_of p with Some ADtor => true | _ => false end end.
+Definition dtor_pc (p : pc) : bool := match p with CXWait => true | _ => dtor_phase p end.
+Definition poolw (s : st) (w : nat) : Prop := nclients s <= w < length (thrs s).
+Definition all_done (s : st) : Prop := forall i p, T s i = Some p -> p = CDone \/ p = WExit.
 
-Lemma sumq_zero c l : (forall p, In p l -> qof c p = 0) -> sumq c l = 0.
+Record InvU (s : st) : Prop := {
+  u_thrall : exit_ s = false -> forall w, poolw s w -> In w (threads s);
+  u_uniq : forall i j p p', T s i = Some p -> T s j = Some p' -> stopper p = true -> stopper p' = true -> i = j;
+  u_jall : forall t l q f a, T s t = Some (Join l q f a) ->
+             forall w, poolw s w -> w <> t -> T s w <> Some WExit -> In w l;
+  u_sfin : forall t a, T s t = Some (SFin a) -> forall w, poolw s w -> w <> t -> T s w = Some WExit;
+  u_det : forall t p, T s t = Some p -> nclients s <= t -> stopper p = true -> det_of p = true;
+  u_stopw : stopped s = true -> forall w, poolw s w -> T s w = Some WExit;
+  u_zero : forall i p, T s i = Some p -> dtor_pc p = true -> i = 0;
+  u_dtor : forall p, T s 0 = Some p -> dtor_phase p = true -> forall j, 0 < j < nclients s -> T s j = Some CDone;
+  u_dead : destroyed s = true -> all_done s;
+  u_uad : uad s = false
+}.
+
+Lemma invu_frame s s' i p old : InvU s -> T s i = Some old -> unfinished old = true ->
+  thrs s' = set_nth (thrs s) i p -> nclients s' = nclients s ->
+  (exit_ s' = false -> exit_ s = false /\ threads s' = threads s) ->
+  (stopper p = true -> stopper old = true \/ (forall j p', T s j = Some p' -> stopper p' = false)) ->
+  (forall l q f a, p = Join l q f a -> forall w, poolw s w -> w <> i -> T s w <> Some WExit -> In w l) ->
+  (forall a, p = SFin a -> forall w, poolw s w -> w <> i -> T s w = Some WExit) ->
+  (nclients s <= i -> stopper p = true -> det_of p = true) ->
+  (stopped s' = stopped s \/ (forall w, poolw s w -> T s' w = Some WExit)) ->
+  (dtor_pc p = true -> dtor_pc old = true \/ i = 0) ->
+  (i = 0 -> dtor_phase p = true -> dtor_phase old = true \/ (forall j, 0 < j < nclients s -> T s j = Some CDone)) ->
+  (destroyed s' = true -> destroyed s = true \/ all_done s') ->
+  uad s' = uad s ->
+  InvU s'.
 Proof.
-  induction l as [|p l IH]; intros F; [reflexivity|]. rewrite sumq_cons, IH, F; cbn; auto.
-  intros; apply F; right; auto.
+  intros [U1 U2 U3 U4 U5 U6 U7 U8 U9 U10] H UF Et En X1 X2 X3 X4 X5 X6 X7 X8 X9 X10.
+  pose proof (TT_set s s' i p old H Et) as TT.
+  assert (LEN : length (thrs s') = length (thrs s)) by (rewrite Et; apply set_nth_length).
+  assert (PW : forall w, poolw s' w <-> poolw s w) by (intros w; unfold poolw; rewrite En, LEN; tauto).
+  assert (NDEAD : destroyed s = true -> False).
+  { intros D. destruct (U9 D i old H) as [-> | ->]; discriminate. }
+  assert (NWX : old <> WExit) by (intros ->; discriminate).
+  constructor.
+  - intros X w Pw. destruct (X1 X) as [X0 Th]. rewrite Th. apply U1; [exact X0|apply PW, Pw].
+  - intros j k pj pk. rewrite !TT.
+    destruct (Nat.eqb_spec i j) as [E1|E1]; destruct (Nat.eqb_spec i k) as [E2|E2]; intros Q1 Q2 S1 S2.
+    + congruence.
+    + inversion Q1; subst pj. destruct (X2 S1) as [So|No]; [subst; eapply U2; eassumption|].
+      rewrite (No k pk Q2) in S2. discriminate.
+    + inversion Q2; subst pk. destruct (X2 S2) as [So|No]; [subst; eapply U2; eassumption|].
+      rewrite (No j pj Q1) in S1. discriminate.
+    + eapply U2; eassumption.
+  - intros t l q f a. rewrite TT. destruct (Nat.eqb_spec i t) as [E|E].
+    + intros Q. inversion Q as [Q']. subst t. intros w Pw Nw. rewrite TT.
+      apply Nat.eqb_neq in Nw. rewrite Nat.eqb_sym in Nw. rewrite Nw. apply (X3 _ _ _ _ Q'); [apply PW, Pw|].
+      apply Nat.eqb_neq. rewrite Nat.eqb_sym. exact Nw.
+    + intros Q w Pw Nw. rewrite TT. destruct (Nat.eqb_spec i w) as [E2|E2].
+      * intros _. subst w. apply (U3 t l q f a Q i); [apply PW, Pw|auto|]. rewrite H. congruence.
+      * apply (U3 t l q f a Q w); [apply PW, Pw|exact Nw].
+  - intros t a. rewrite TT. destruct (Nat.eqb_spec i t) as [E|E].
+    + intros Q. inversion Q as [Q']. subst t. intros w Pw Nw. rewrite TT.
+      assert (Nw' : Nat.eqb i w = false) by (apply Nat.eqb_neq; auto). rewrite Nw'.
+      apply (X4 _ Q'); [apply PW, Pw|exact Nw].
+    + intros Q w Pw Nw. rewrite TT. destruct (Nat.eqb_spec i w) as [E2|E2].
+      * exfalso. subst w. pose proof (U4 t a Q i (proj1 (PW i) Pw) E) as Y. rewrite H in Y. congruence.
+      * apply (U4 t a Q w); [apply PW, Pw|exact Nw].
+  - intros t pt. rewrite TT, En. destruct (Nat.eqb_spec i t) as [E|E].
+    + intros Q. inversion Q; subst. apply X5.
+    + apply U5.
+  - intros ST w Pw. destruct X6 as [Same|Own]; [|apply Own, PW, Pw].
+    rewrite Same in ST. rewrite TT. destruct (Nat.eqb_spec i w) as [E2|E2].
+    + exfalso. subst w. pose proof (U6 ST i (proj1 (PW i) Pw)) as Y. rewrite H in Y. congruence.
+    + apply (U6 ST), PW, Pw.
+  - intros j pj. rewrite TT. destruct (Nat.eqb_spec i j) as [E|E].
+    + intros Q D. inversion Q; subst. destruct (X7 D) as [Y|Y]; [eapply U7; eassumption|exact Y].
+    + apply U7.
+  - intros p0. rewrite TT, En. destruct (Nat.eqb_spec i 0) as [E|E].
+    + intros Q D j Lj. inversion Q; subst p0. rewrite TT. subst i.
+      assert (Nj : Nat.eqb 0 j = false) by (apply Nat.eqb_neq; lia). rewrite Nj.
+      destruct (X8 eq_refl D) as [Y|Y]; [eapply U8; eassumption|apply Y, Lj].
+    + intros Q D j Lj. rewrite TT. destruct (Nat.eqb_spec i j) as [E2|E2].
+      * exfalso. subst j. pose proof (U8 p0 Q D i Lj) as Y. rewrite H in Y. inversion Y. subst old. discriminate.
+      * eapply U8; eassumption.
+  - intros D. destruct (X9 D) as [Y|Y]; [exfalso; auto|exact Y].
+  - rewrite X10. exact U10.
 Qed.
+
+Lemma enabled_unfinished s i : enabled s i = true -> exists p, T s i = Some p /\ unfinished p = true.
+Proof.
+  unfold enabled, T. destruct (nth_error (thrs s) i) as [p|]; [|discriminate].
+  intros E. exists p. split; [reflexivity|]. destruct p; try reflexivity; discriminate.
+Qed.
+
+Lemma wexit_dec s w : T s w = Some WExit \/ T s w <> Some WExit.
+Proof. destruct (T s w) as [p|]; [destruct p|]; try (right; discriminate); left; reflexivity. Qed.
+
+Lemma next_client_dtor i r : stopper (next_client i r) = false /\ dtor_phase (next_client i r) = false /\
+  (dtor_pc (next_client i r) = true -> i = 0).
+Proof.
+  unfold next_client. destruct r; [destruct (Nat.eqb_spec i 0)|]; repeat split; try reflexivity; intros; try discriminate; auto.
+Qed.
+Lemma job_next_dtor r : stopper (job_next r) = false /\ dtor_pc (job_next r) = false.
+Proof. destruct r as [|[] r]; split; reflexivity. Qed.
+Lemma pc_after_dtor t a : stopper (pc_after t a) = false /\ dtor_phase (pc_after t a) = false /\
+  (dtor_pc (pc_after t a) = true -> t = 0).
+Proof.
+  destruct a as [r| |[|] r]; cbn [pc_after]; try (repeat split; try reflexivity; intros; discriminate).
+  - apply next_client_dtor.
+  - destruct (job_next_dtor r) as [X Y]. repeat split; auto.
+    + destruct r as [|[] r]; reflexivity.
+    + rewrite Y. discriminate.
+Qed.
+
+(* a thread moves between ordinary pcs; the pool's flags do not change *)
+Lemma invu_plain s s' i p old : InvU s -> T s i = Some old -> unfinished old = true ->
+  thrs s' = set_nth (thrs s) i p -> nclients s' = nclients s ->
+  exit_ s' = exit_ s -> threads s' = threads s -> stopped s' = stopped s -> destroyed s' = destroyed s -> uad s' = uad s ->
+  stopper p = false ->
+  (dtor_pc p = true -> dtor_pc old = true \/ i = 0) ->
+  (i = 0 -> dtor_phase p = true -> dtor_phase old = true \/ (forall j, 0 < j < nclients s -> T s j = Some CDone)) ->
+  InvU s'.
+Proof.
+  intros U H UF Et En Ee Eth Es Ed Eu SP D1 D2.
+  apply (invu_frame s s' i p old U H UF Et En); auto.
+  - rewrite Ee. auto.
+  - rewrite SP. discriminate.
+  - intros l q f a E. subst p. discriminate.
+  - intros a E. subst p. discriminate.
+  - rewrite SP. discriminate.
+  - rewrite Ed. auto.
+Qed.
+
+Lemma invu_move s i p old : InvU s -> T s i = Some old -> unfinished old = true ->
+  stopper p = false ->
+  (dtor_pc p = true -> dtor_pc old = true \/ i = 0) ->
+  (i = 0 -> dtor_phase p = true -> dtor_phase old = true \/ (forall j, 0 < j < nclients s -> T s j = Some CDone)) ->
+  InvU (with_thr s i p).
+Proof. intros U H UF P1 P2 P3. apply (invu_plain s _ i p old U H UF); auto. Qed.
+
+Lemma invu_wake s i : InvU s -> InvU (wake s i).
+Proof.
+  intros [U1 U2 U3 U4 U5 U6 U7 U8 U9 U10]. unfold wake. destruct (is_woken s i); constructor; auto.
+Qed.
+Lemma invu_ext s i r : InvU s -> InvU (with_ext s i r).
+Proof. intros [U1 U2 U3 U4 U5 U6 U7 U8 U9 U10]. constructor; auto. Qed.
+
+(* stop() returns in a state where the first stop has finished (or the caller is a pool thread) *)
+Lemma invu_returned s s0 t a old : InvB s -> InvU s -> T s t = Some old -> unfinished old = true ->
+  thrs s0 = thrs s -> nclients s0 = nclients s -> exit_ s0 = true -> destroyed s0 = destroyed s -> uad s0 = uad s ->
+  (stopped s0 = stopped s \/ (forall w, poolw s w -> w <> t -> T s w = Some WExit) /\ (nclients s <= t -> pc_after t a = WExit)) ->
+  (is_dtor a = true -> dtor_phase old = true /\
+       (forall w, poolw s w -> T s w = Some WExit)) ->
+  InvU (fst (returned s0 t a)).
+Proof.
+  intros B U H UF Et En EX Ed Eu ST DT.
+  destruct (returned_shell s0 t a _ eq_refl) as (E & K & Q & D & Th).
+  set (s' := fst (returned s0 t a)) in *.
+  destruct E as (e1 & e2 & e3 & e4 & e5 & e6 & e7 & e8 & e9).
+  destruct (pc_after_dtor t a) as (P1 & P2 & P3).
+  assert (Et' : thrs s' = set_nth (thrs s) t (pc_after t a)) by (rewrite Th, Et; reflexivity).
+  pose proof (TT_set s s' t _ old H Et') as TT.
+  apply (invu_frame s s' t (pc_after t a) old U H UF Et'); auto.
+  - congruence.
+  - rewrite e1, EX. discriminate.
+  - rewrite P1. discriminate.
+  - intros l q f a0 E0. rewrite E0 in P1. discriminate.
+  - intros a0 E0. rewrite E0 in P1. discriminate.
+  - rewrite P1. discriminate.
+  - rewrite e2. destruct ST as [ST|[ST1 ST2]]; [left; exact ST|right].
+    intros w Pw. rewrite TT. destruct (Nat.eqb_spec t w) as [E0|E0].
+    + subst w. f_equal. apply ST2. apply Pw.
+    + apply ST1; auto.
+  - intros _ X. rewrite X in P2. discriminate.
+  - rewrite D, Ed. destruct (is_dtor a) eqn:DA; [|auto]. intros _. right.
+    destruct (DT eq_refl) as [DP WX].
+    assert (T0 : t = 0) by (apply (u_zero s U t old H); destruct old; try discriminate; cbn in *; auto;
+                             unfold dtor_phase in DP; cbn in DP; exact DP).
+    subst t. destruct a; try discriminate. cbn [pc_after] in *.
+    intros j pj. rewrite TT. destruct (Nat.eqb_spec 0 j) as [E0|E0].
+    + intros Qj. inversion Qj. auto.
+    + intros Qj. destruct (Nat.ltb_spec j (nclients s)) as [L|L].
+      * rewrite (u_dtor s U old H DP j) in Qj by lia. inversion Qj. auto.
+      * assert (Pw : poolw s j) by (split; [exact L|eapply T_lt, Qj]). rewrite (WX j Pw) in Qj. inversion Qj. auto.
+  - congruence.
+Qed.
+
+Lemma dtor_phase_pc p : dtor_phase p = true -> dtor_pc p = true.
+Proof. unfold dtor_pc. destruct p; auto. Qed.
+
+Lemma invu_after_wait s s0 t l q first a old : InvB s -> InvU s -> T s t = Some old -> unfinished old = true ->
+  thrs s0 = thrs s -> nclients s0 = nclients s -> exit_ s0 = true -> destroyed s0 = destroyed s ->
+  stopped s0 = stopped s -> uad s0 = uad s ->
+  (first = true -> (stopper old = true \/ (forall j p', T s j = Some p' -> stopper p' = false)) /\
+                   (forall w, poolw s w -> w <> t -> T s w <> Some WExit -> In w l) /\
+                   (nclients s <= t -> det_after a = true)) ->
+  (first = false -> l = [] /\ (is_dtor a = true -> stopped s = true)) ->
+  (is_dtor a = true -> dtor_phase old = true) ->
+  InvU (fst (after_wait s0 t l q first a)).
+Proof.
+  intros B U H UF Et En EX Ed Es Eu HF HN HD.
+  unfold after_wait. destruct l as [|w0 l].
+  - (* the join loop is over *)
+    unfold stop_end.
+    destruct (drop_env t s0 q) as (E & K & Q & D & Th).
+    destruct (drop_all t s0 q) as [s1 e]. cbn [fst] in *.
+    destruct E as (e1 & e2 & e3 & e4 & e5 & e6 & e7 & e8 & e9).
+    destruct first.
+    + destruct (HF eq_refl) as (F1 & F2 & F3). cbn [fst].
+      apply (invu_frame s _ t (SFin a) old U H UF); unfold with_thr;
+        cbn [queue exit_ stopped threads tokens woken destroyed nclients thrs extw uad]; auto.
+      * rewrite Th, Et. reflexivity.
+      * congruence.
+      * rewrite e1, EX. discriminate.
+      * intros l0 q0 f0 a0 E0. discriminate.
+      * intros a0 E0 w Pw Nw. destruct (wexit_dec s w) as [X|X]; [exact X|]. destruct (F2 w Pw Nw X).
+      * left. congruence.
+      * unfold dtor_pc. cbn [dtor_phase after_of]. intros X. left. apply dtor_phase_pc, HD. destruct a; try discriminate; reflexivity.
+      * rewrite D, Ed. auto.
+      * congruence.
+    + destruct (HN eq_refl) as (_ & N2).
+      pose proof (invu_returned s s1 t a old B U H UF) as R.
+      destruct (returned s1 t a) as [s2 e2']. cbn [fst] in *. apply R; try congruence.
+      * left. congruence.
+      * intros DA. split; [apply HD, DA|]. apply (u_stopw s U (N2 DA)).
+  - destruct first; [|destruct (HN eq_refl) as (X & _); discriminate].
+    destruct (HF eq_refl) as (F1 & F2 & F3). cbn [fst].
+    apply (invu_frame s _ t (Join (w0 :: l) q true a) old U H UF); unfold with_thr;
+      cbn [queue exit_ stopped threads tokens woken destroyed nclients thrs extw uad]; auto.
+    + rewrite Et. reflexivity.
+    + rewrite EX. discriminate.
+    + intros l0 q0 f0 a0 E0. inversion E0; subst. exact F2.
+    + intros a0 E0. discriminate.
+    + unfold dtor_pc. cbn [dtor_phase after_of]. intros X. left. apply dtor_phase_pc, HD. destruct a; try discriminate; reflexivity.
+    + rewrite Ed. auto.
+Qed.
+
+Lemma in_filter_ne (t : nat) l w : In w l -> w <> t -> In w (filter (fun x => negb (Nat.eqb x t)) l).
+Proof. intros I N. apply filter_In. split; [exact I|]. apply Nat.eqb_neq in N. rewrite N. reflexivity. Qed.
+Lemma existsb_eqb_true t l : In t l -> existsb (Nat.eqb t) l = true.
+Proof. intros I. apply existsb_exists. exists t. split; [exact I|apply Nat.eqb_refl]. Qed.
+
+Lemma invu_stop_mark s t a old : InvB s -> InvU s -> T s t = Some old -> unfinished old = true ->
+  in_stop old = false ->
+  (nclients s <= t -> exists d r, a = AWorker d r) ->
+  (is_dtor a = true -> dtor_phase old = true) ->
+  InvU (fst (stop_mark s t a)).
+Proof.
+  intros B U H UF NS WA HD. unfold stop_mark.
+  set (s1 := marked s (sleeper_ids s)).
+  set (a' := match a with AWorker _ r => AWorker (existsb (Nat.eqb t) (threads s)) r | _ => a end).
+  set (l := filter (fun w => negb (Nat.eqb w t)) (threads s)).
+  assert (DT : is_dtor a' = is_dtor a) by (unfold a'; destruct a; reflexivity).
+  assert (NOST : exit_ s = false -> forall j p', T s j = Some p' -> stopper p' = false).
+  { intros X j p' Hj. destruct (stopper p') eqn:S; [|reflexivity].
+    assert (I : in_stop p' = true) by (destruct p'; try discriminate; reflexivity).
+    pose proof (b_join s B j p' Hj I). congruence. }
+  destruct (negb (negb (exit_ s)) && negb (is_cur a) && negb (stopped s)) eqn:COND.
+  - apply andb_prop in COND. destruct COND as [COND C3]. apply andb_prop in COND. destruct COND as [C1 C2].
+    assert (X : exit_ s = true) by (destruct (exit_ s); [reflexivity|discriminate]).
+    cbn [fst]. apply (invu_frame s _ t (SWait l (queue s) a') old U H UF); unfold with_thr, s1, marked;
+      cbn [queue exit_ stopped threads tokens woken destroyed nclients thrs extw uad]; auto; try discriminate.
+    + unfold dtor_pc. cbn [dtor_phase after_of]. intros Y. left. apply dtor_phase_pc, HD. rewrite <- DT. destruct a'; try discriminate; reflexivity.
+    + intros _ Y. left. apply HD. rewrite <- DT. cbn [dtor_phase after_of] in Y. destruct a'; try discriminate; reflexivity.
+  - apply (invu_after_wait s s1 t l (queue s) (negb (exit_ s)) a' old B U H UF); try reflexivity.
+    + intros F. assert (X : exit_ s = false) by (destruct (exit_ s); [discriminate|reflexivity]).
+      split; [right; apply NOST, X|]. split.
+      * intros w Pw Nw _. apply in_filter_ne; [apply (u_thrall s U X w Pw)|exact Nw].
+      * intros L. destruct (WA L) as (d & r & ->). unfold a'. cbn [det_after].
+        rewrite existsb_eqb_true; [reflexivity|]. apply (u_thrall s U X). split; [exact L|eapply T_lt, H].
+    + intros F. assert (X : exit_ s = true) by (destruct (exit_ s); [reflexivity|discriminate]).
+      destruct (b_exit s B X) as [_ Th]. split; [unfold l; rewrite Th; reflexivity|].
+      rewrite DT. intros DA. rewrite X in COND. cbn [negb andb] in COND.
+      destruct a; try discriminate. cbn [is_cur negb andb] in COND. destruct (stopped s); [reflexivity|discriminate].
+    + rewrite DT. exact HD.
+Qed.
+
+Lemma exit_pc_dtor s w : stopper (exit_pc s w) = false /\ dtor_phase (exit_pc s w) = false /\
+  (dtor_pc (exit_pc s w) = true -> w = 0).
+Proof.
+  unfold exit_pc. destruct (Nat.ltb w (nclients s)); [apply next_client_dtor|].
+  repeat split; try reflexivity. discriminate.
+Qed.
+
+Lemma invu_worker_cs s s0 w old : InvU s -> T s w = Some old -> unfinished old = true ->
+  thrs s0 = thrs s -> nclients s0 = nclients s -> exit_ s0 = exit_ s -> threads s0 = threads s ->
+  stopped s0 = stopped s -> destroyed s0 = destroyed s -> uad s0 = uad s ->
+  InvU (fst (worker_cs s0 w)).
+Proof.
+  intros U H UF Et En Ee Eth Es Ed Eu.
+  assert (GEN : forall p s2, thrs s2 = thrs s0 -> nclients s2 = nclients s0 -> exit_ s2 = exit_ s0 ->
+            threads s2 = threads s0 -> stopped s2 = stopped s0 -> destroyed s2 = destroyed s0 -> uad s2 = uad s0 ->
+            stopper p = false -> dtor_phase p = false -> (dtor_pc p = true -> w = 0) ->
+            InvU (with_thr s2 w p)).
+  { intros p s2 E1 E2 E3 E4 E5 E6 E7 P1 P2 P3.
+    apply (invu_plain s _ w p old U H UF); unfold with_thr;
+      cbn [queue exit_ stopped threads tokens woken destroyed nclients thrs extw uad]; try congruence; auto;
+      intros _ X; congruence. }
+  unfold worker_cs. destruct (exit_ s0) eqn:EX.
+  - cbn [fst]. destruct (exit_pc_dtor s0 w) as (X1 & X2 & X3). apply GEN; auto.
+  - destruct (queue s0) as [|c0 r].
+    + cbn [fst]. apply GEN; auto. discriminate.
+    + unfold run_job. destruct (nth_error (clos (with_queue s0 r)) c0) as [x|].
+      * cbn [fst]. destruct (job_next_dtor (cb x)) as (X1 & X2).
+        apply GEN; auto.
+        -- unfold dtor_pc in X2. destruct (job_next (cb x)); try discriminate; auto.
+        -- rewrite X2. discriminate.
+      * cbn [fst]. apply GEN; auto. discriminate.
+Qed.
+
+Lemma invu_enqueue s i l k b p old : InvU s -> T s i = Some old -> unfinished old = true ->
+  stopper p = false -> dtor_phase p = false -> (dtor_pc p = true -> i = 0) ->
+  InvU (with_thr (fst (enqueue s i l k b)) i p).
+Proof.
+  intros U H UF P1 P2 P3.
+  destruct (enqueue_shell s i l k b _ eq_refl) as (hq & he & hs & ht & hk & hw & hd & hn & hth & hc & hx & hu & _).
+  apply (invu_plain s _ i p old U H UF); unfold with_thr;
+    cbn [queue exit_ stopped threads tokens woken destroyed nclients thrs extw uad]; try congruence; auto;
+    intros _ X; congruence.
+Qed.
+
+Lemma in_firstn_nth {A} (l : list A) : forall n j x, nth_error l j = Some x -> j < n -> In x (firstn n l).
+Proof.
+  induction l as [|y l IH]; intros [|n] [|j] x H L; cbn in *; try discriminate; try lia.
+  - inversion H. left. reflexivity.
+  - right. apply (IH n j x H). lia.
+Qed.
+
+Lemma xwait_others s : InvB s -> InvU s -> xwait_ok s = true -> forall j, 0 < j < nclients s -> T s j = Some CDone.
+Proof.
+  intros B U X j Lj. unfold xwait_ok in X. rewrite forallb_forall in X.
+  pose proof (b_ncl s B) as N.
+  destruct (nth_error (thrs s) j) as [p|] eqn:E; [|apply nth_error_None in E; lia].
+  assert (I : In p (firstn (nclients s) (thrs s))).
+  { apply (in_firstn_nth _ _ j); [exact E|lia]. }
+  specialize (X p I). unfold T. rewrite E. destruct p; try discriminate; [|reflexivity].
+  exfalso. pose proof (u_zero s U j CXWait E eq_refl). lia.
+Qed.
+
+Theorem invu_core s i : InvB s -> InvU s -> enabled s i = true -> InvU (cstep s i).
+Proof.
+  intros B U EN. destruct (enabled_unfinished s i EN) as (p0 & H0 & UF).
+  unfold cstep, core. unfold enabled in EN. unfold T in H0. rewrite H0 in *.
+  assert (H : T s i = Some p0) by exact H0.
+  pose proof (b_class s B i p0 H) as [CL1 CL2].
+  destruct p0 as [prog| | | | | |l k r|l r|l r|r|q r| |l q f a|l q a|a].
+  - destruct prog as [|[l k b| |] r].
+    + cbn [fst]. destruct (next_client_dtor i []) as (X1 & X2 & X3).
+      apply (invu_move s i _ (CAt []) U H UF); auto. intros _ X. congruence.
+    + pose proof (invu_enqueue s i l k b (next_client i r) _ U H UF) as E.
+      destruct (enqueue s i l k b) as [s1 e]. cbn [fst] in *. destruct (next_client_dtor i r) as (X1 & X2 & X3). apply E; auto.
+    + pose proof (invu_stop_mark s i (AClient r) _ B U H UF) as E.
+      destruct (stop_mark s i (AClient r)) as [s1 e]. cbn [fst] in *. apply E; auto; try discriminate.
+      intros L. exfalso. specialize (CL1 L). discriminate.
+    + pose proof (invu_worker_cs s (with_ext s i r) i _ U H UF) as E.
+      destruct (worker_cs (with_ext s i r) i) as [s1 e]. cbn [fst] in *. apply E; reflexivity.
+  - cbn [fst]. apply (invu_move s i CDtor CXWait U H UF); auto.
+    intros _ _. right. apply (xwait_others s B U EN).
+  - pose proof (invu_stop_mark s i ADtor _ B U H UF) as E.
+    destruct (stop_mark s i ADtor) as [s1 e]. cbn [fst] in *. apply E; auto.
+    intros L. exfalso. specialize (CL1 L). discriminate.
+  - discriminate.
+  - pose proof (invu_worker_cs s s i _ U H UF) as E.
+    destruct (worker_cs s i) as [s1 e]. cbn [fst] in *. apply E; reflexivity.
+  - pose proof (invu_worker_cs s (wake s i) i _ U H UF) as E.
+    destruct (worker_cs (wake s i) i) as [s1 e]. cbn [fst] in *.
+    apply E; unfold wake; destruct (is_woken s i); reflexivity.
+  - pose proof (invu_enqueue s i l k [] (job_next r) _ U H UF) as E.
+    destruct (enqueue s i l k []) as [s1 e]. cbn [fst] in *. destruct (job_next_dtor r) as (X1 & X2).
+    apply E; auto; [unfold dtor_pc in X2; destruct (job_next r); try discriminate; auto|rewrite X2; discriminate].
+  - pose proof (invu_enqueue s i l KHop r WIdle _ U H UF) as E.
+    destruct (enqueue s i l KHop r) as [s1 e]. cbn [fst] in *. apply E; auto. discriminate.
+  - cbn [fst]. destruct (job_next_dtor r) as (X1 & X2).
+    assert (DP : dtor_phase (job_next r) = false) by (destruct r as [|[] r]; reflexivity).
+    apply (invu_move s i _ (WPeek l r) U H UF); destruct (exit_ s); auto; try discriminate;
+      try (rewrite X2; discriminate); intros _ X; congruence.
+  - pose proof (invu_stop_mark s i (AWorker false r) _ B U H UF) as E.
+    destruct (stop_mark s i (AWorker false r)) as [s1 e]. cbn [fst] in *. apply E; auto; try discriminate. eauto.
+  - cbn [fst]. destruct (job_next_dtor r) as (X1 & X2).
+    assert (DP : dtor_phase (job_next r) = false) by (destruct r as [|[] r]; reflexivity).
+    apply (invu_move s i _ (WQry q r) U H UF); auto; try (rewrite X2; discriminate).
+    intros _ X; congruence.
+  - discriminate.
+  - (* join loop *)
+    assert (F : f = true) by (eapply (b_first s B); exact H). subst f.
+    assert (EXT : exit_ s = true) by (apply (b_join s B i _ H); reflexivity).
+    assert (HD : is_dtor a = true -> dtor_phase (Join l q true a) = true).
+    { intros DA. unfold dtor_phase. cbn [after_of]. destruct a; try discriminate; reflexivity. }
+    assert (HN : true = false -> @nil nat = [] /\ (is_dtor a = true -> stopped s = true)) by (intros; discriminate).
+    assert (DET : nclients s <= i -> det_after a = true) by (intros L; apply (u_det s U i _ H L eq_refl)).
+    assert (W0 : forall w0 r0, l = w0 :: r0 -> T s w0 = Some WExit).
+    { intros w0 r0 ->. unfold is_wexit in EN. unfold T. destruct (nth_error (thrs s) w0) as [[]|]; try discriminate. reflexivity. }
+    destruct l as [|w0 [|w1 l]].
+    + assert (HF : true = true -> (stopper (Join [] q true a) = true \/ (forall j p', T s j = Some p' -> stopper p' = false)) /\
+                   (forall w, poolw s w -> w <> i -> T s w <> Some WExit -> In w []) /\ (nclients s <= i -> det_after a = true)).
+      { intros _. split; [left; reflexivity|]. split; [|exact DET]. intros w Pw Nw X. apply (u_jall s U i _ _ _ _ H w Pw Nw X). }
+      pose proof (invu_after_wait s s i [] q true a _ B U H UF) as E. unfold after_wait in E.
+      destruct (stop_end s i q true a) as [s1 e]. cbn [fst] in *. apply E; auto.
+    + assert (HF : true = true -> (stopper (Join [w0] q true a) = true \/ (forall j p', T s j = Some p' -> stopper p' = false)) /\
+                   (forall w, poolw s w -> w <> i -> T s w <> Some WExit -> In w []) /\ (nclients s <= i -> det_after a = true)).
+      { intros _. split; [left; reflexivity|]. split; [|exact DET]. intros w Pw Nw X.
+        pose proof (u_jall s U i _ _ _ _ H w Pw Nw X) as I. destruct I as [<-|[]]. exfalso. apply X. apply (W0 w0 []). reflexivity. }
+      pose proof (invu_after_wait s s i [] q true a _ B U H UF) as E. unfold after_wait in E.
+      destruct (stop_end s i q true a) as [s1 e]. cbn [fst] in *. apply E; auto.
+    + cbn [fst]. apply (invu_frame s _ i (Join (w1 :: l) q true a) _ U H UF); unfold with_thr;
+        cbn [queue exit_ stopped threads tokens woken destroyed nclients thrs extw uad]; auto.
+      * intros l0 q0 f0 a0 E0 w Pw Nw X. inversion E0; subst.
+        pose proof (u_jall s U i _ _ _ _ H w Pw Nw X) as I. destruct I as [<-|I]; [|exact I].
+        exfalso. apply X. eapply W0. reflexivity.
+      * intros a0 E0. discriminate.
+  - (* woken inside stop() *)
+    destruct (b_swait s B i l q a H) as (L0 & Q1 & CU). subst l q.
+    assert (EXT : exit_ s = true) by (apply (b_join s B i _ H); reflexivity).
+    destruct (stopped s) eqn:ST.
+    + assert (HD : is_dtor a = true -> dtor_phase (SWait [] [] a) = true).
+      { intros DA. unfold dtor_phase. cbn [after_of]. destruct a; try discriminate; reflexivity. }
+      assert (HN : false = false -> @nil nat = [] /\ (is_dtor a = true -> true = true)) by auto.
+      assert (HF : false = true -> (stopper (SWait [] [] a) = true \/ (forall j p', T s j = Some p' -> stopper p' = false)) /\
+                   (forall w, poolw s w -> w <> i -> T s w <> Some WExit -> In w []) /\ (nclients s <= i -> det_after a = true))
+        by (intros; discriminate).
+      assert (WK : forall A (f : st -> A), (forall x n, f (with_tokens x n) = f x) -> (forall x w, f (with_woken x w) = f x) -> f (wake s i) = f s).
+      { intros A f F1 F2. unfold wake. destruct (is_woken s i); auto. }
+      pose proof (invu_after_wait s (wake s i) i [] [] false a _ B U H UF) as E.
+      destruct (after_wait (wake s i) i [] [] false a) as [s1 e]. cbn [fst] in *.
+      apply E; auto; try (apply WK; reflexivity).
+      rewrite (WK _ exit_); auto.
+    + cbn [fst]. apply invu_wake, U.
+  - (* the first stop sets _stopped *)
+    assert (EXT : exit_ s = true) by (apply (b_join s B i _ H); reflexivity).
+    pose proof (invu_returned s (finished s (sleeper_ids s)) i a _ B U H UF) as E.
+    destruct (returned (finished s (sleeper_ids s)) i a) as [s1 e]. cbn [fst] in *.
+    assert (ALLW : forall w, poolw s w -> w <> i -> T s w = Some WExit) by (apply (u_sfin s U i a H)).
+    assert (SELF : nclients s <= i -> pc_after i a = WExit).
+    { intros L. pose proof (u_det s U i _ H L eq_refl) as D. cbn [det_of] in D. destruct a as [| |[|] r]; try discriminate. reflexivity. }
+    apply E; auto.
+    intros DA. split; [unfold dtor_phase; cbn [after_of]; destruct a; try discriminate; reflexivity|].
+    intros w Pw. apply ALLW; [exact Pw|]. intros ->. destruct Pw as [L _].
+    pose proof (u_zero s U i _ H) as Z. unfold dtor_pc, dtor_phase in Z. cbn [after_of] in Z. destruct a; try discriminate.
+    specialize (Z eq_refl). pose proof (b_ncl s B). lia.
+Qed.
+
+Lemma step_is_core s i : InvU s -> enabled s i = true -> step s i = cstep s i.
+Proof.
+  intros U EN. destruct (enabled_unfinished s i EN) as (p & H & UF).
+  unfold step, cstep, tstep. unfold T in H. rewrite H.
+  destruct (destroyed s) eqn:D.
+  - exfalso. destruct (u_dead s U D i p H) as [-> | ->]; discriminate.
+  - cbn [andb]. destruct (core s i) as [[s1 pt] e]. reflexivity.
+Qed.
+
+Theorem invu_step s i : InvB s -> InvU s -> enabled s i = true -> InvU (step s i).
+Proof. intros B U EN. rewrite (step_is_core s i U EN). apply invu_core; assumption. Qed.
+
+Lemma invu_init ops : InvU (init ops).
+Proof.
+  destruct (init_shape ops) as (m & cl & n & M & N & LC & NC & TH & THR & Q & EX & ST & DE & TK & WK & CLO & XW & UA & SH).
+  pose proof (init_cls ops) as CLS.
+  assert (PL : forall i p, T (init ops) i = Some p -> stopper p = false /\ dtor_phase p = false /\ (dtor_pc p = true -> i = 0)).
+  { intros i p H. destruct (CLS i p H) as [(L & r & ->)|(L & ->)]; [apply next_client_dtor|].
+    repeat split; try reflexivity. discriminate. }
+  constructor.
+  - intros _ w [P1 P2]. rewrite THR. apply in_seq. rewrite NC in P1. rewrite TH, app_length, repeat_length, LC in P2. lia.
+  - intros i j p p' H _ S. destruct (PL i p H) as (X & _). congruence.
+  - intros t l q f a H. destruct (PL t _ H) as (X & _). discriminate.
+  - intros t a H. destruct (PL t _ H) as (X & _). discriminate.
+  - intros t p H _ S. destruct (PL t p H) as (X & _). congruence.
+  - rewrite ST. discriminate.
+  - intros i p H. apply (PL i p H).
+  - intros p H D. destruct (PL 0 p H) as (_ & X & _). congruence.
+  - rewrite DE. discriminate.
+  - exact UA.
+Qed.
+
+Theorem invu_reachable ops s : reachable ops s -> InvU s.
+Proof.
+  induction 1; [apply invu_init|]. apply invu_step; auto. eapply invb_reachable; eassumption.
+Qed.
+
+(* ---------- the statements of C11 ---------- *)
+Definition terminal (s : st) : Prop := all_done s.
 
 Lemma terminal_quiet ops s : reachable ops s -> terminal s ->
   destroyed s = true /\ queue s = [] /\ forall c, sumq c (thrs s) = 0.
@@ -840,7 +1692,7 @@ Proof.
   { apply (b_done0 s B). pose proof (b_ncl s B) as [N1 N2].
     destruct (nth_error (thrs s) 0) as [p|] eqn:E; [|apply nth_error_None in E; lia].
     destruct (Tm 0 p E) as [->| ->]; [exact E|].
-    pose proof (b_class s B 0 WExit E) as [_ X]. specialize (X N1). discriminate. }
+    exfalso. apply (proj2 (b_class s B 0 WExit E) N1). reflexivity. }
   split; [exact D|]. split.
   - apply (b_exit s B). apply (b_destr s B D).
   - intros c. apply sumq_zero. intros p Hin. apply In_nth_error in Hin. destruct Hin as [i Hi].
@@ -869,45 +1721,49 @@ Proof.
   destruct (terminal_quiet ops s R Tm) as (_ & Q & S0). rewrite Q, S0, cnt_nil in E. lia.
 Qed.
 
-(* C11.2 a closure is only ever invoked by a worker thread of the pool *)
+(* C11.2 a closure is only ever invoked by a worker: a thread of the pool, or a client thread that has called worker() *)
 Theorem ran_on_worker ops s c x : reachable ops s -> nth_error (clos s) c = Some x -> 1 <= cran x ->
-  nclients s <= cran_on x < length (thrs s) /\
-  (forall p, T s (cran_on x) = Some p -> is_client p = false).
+  cran_on x < length (thrs s) /\ (nclients s <= cran_on x \/ In (cran_on x) (extw s)).
 Proof.
   intros R H N. pose proof (invb_reachable ops s R) as B.
-  pose proof (b_ran s B c) as E. rewrite !(G_some _ _ _ _ _ H) in E. specialize (E N).
-  split; [exact E|]. intros p Hp. pose proof (b_class s B _ p Hp) as [X _].
-  destruct (is_client p); [specialize (X eq_refl); lia|reflexivity].
+  pose proof (b_ran s B c) as E. rewrite !(G_some _ _ _ _ _ H) in E. exact (E N).
 Qed.
 
-(* C11.3 destroying an un-run closure of an owning kind delivers exactly one cancellation to its waiter;
-   a bare-handle closure delivers none *)
-Theorem cancel_observable ops s c x : reachable ops s -> nth_error (clos s) c = Some x ->
-  ccanc x = if owned (ck x) then cdrop x else 0.
+(* C11.3 destroying an un-run closure delivers exactly one cancellation to its waiter, for every kind *)
+Theorem cancel_observable ops s c x : reachable ops s -> nth_error (clos s) c = Some x -> ccanc x = cdrop x.
 Proof.
   intros R H. pose proof (a_canc s (inva_reachable ops s R) c) as E.
   rewrite !(G_some _ _ _ _ _ H) in E. exact E.
 Qed.
 
-(* C11.4 at the end nobody is left hanging: the waiter of every owning closure was completed by a run on a
-   worker or by exactly one cancellation, never both *)
+(* C11.4 at the end nobody is left hanging: every waiter was completed by a run on a worker or by exactly one
+   cancellation, never both *)
 Theorem no_forgotten_waiter ops s c x : reachable ops s -> terminal s -> nth_error (clos s) c = Some x ->
-  owned (ck x) = true -> cran x + ccanc x = 1.
+  cran x + ccanc x = 1.
 Proof.
-  intros R Tm H O. pose proof (exactly_one_outcome ops s c x R Tm H).
-  pose proof (cancel_observable ops s c x R H) as E. rewrite O in E. lia.
+  intros R Tm H. pose proof (exactly_one_outcome ops s c x R Tm H).
+  pose proof (cancel_observable ops s c x R H). lia.
 Qed.
 
-(* C11.6 when the destructor has returned every worker has left worker() and everything was joined *)
+(* C11.6 nothing uses the pool after its destructor has returned: at that moment every thread of the pool has
+   left worker() (or detached itself and finished), every client call has returned, nothing is queued *)
+Theorem no_use_after_destroy ops s : reachable ops s ->
+  uad s = false /\ (destroyed s = true -> terminal s /\ exit_ s = true /\ stopped s = true /\ queue s = [] /\ threads s = []).
+Proof.
+  intros R. pose proof (invb_reachable ops s R) as B. pose proof (invu_reachable ops s R) as U.
+  split; [apply (u_uad s U)|]. intros D. destruct (b_destr s B D) as [X S]. destruct (b_exit s B X) as [Q Th].
+  repeat split; auto. apply (u_dead s U D).
+Qed.
+
 Theorem terminal_all_joined ops s : reachable ops s -> terminal s ->
   destroyed s = true /\ exit_ s = true /\ queue s = [] /\ threads s = [] /\
   forall i p, T s i = Some p -> nclients s <= i -> p = WExit.
 Proof.
   intros R Tm. pose proof (invb_reachable ops s R) as B.
   destruct (terminal_quiet ops s R Tm) as (D & Q & _).
-  pose proof (b_destr s B D) as X. destruct (b_exit s B X) as [_ Th].
+  destruct (b_destr s B D) as [X _]. destruct (b_exit s B X) as [_ Th].
   repeat split; auto. intros i p H L. destruct (Tm i p H) as [->| ->]; [|reflexivity].
-  pose proof (b_class s B i CDone H) as [Y _]. specialize (Y eq_refl). lia.
+  pose proof (proj1 (b_class s B i CDone H) L). discriminate.
 Qed.
 
 (* ---------- executions of run_sched are reachable (used for concrete witnesses) ---------- *)
@@ -931,33 +1787,18 @@ Proof.
     unfold zlen. assert (0 < Z.of_nat (length (e0 :: en)))%Z by (cbn [length]; lia).
     pose proof (Z.mod_pos_bound k (Z.of_nat (length (e0 :: en))) H). lia. }
   pose proof (r_step ops s i R EN) as R1. unfold step in R1.
-  destruct (tstep s i) as [[s1 p] e]. cbn [fst] in R1. apply IH. exact R1.
+  destruct (tstep s i) as [[s1 p] e]. cbn [fst] in R1.
+  destruct (uad s1); [exact R1|]. apply IH. exact R1.
 Qed.
 
 Definition terminalb (s : st) : bool := forallb (fun p => negb (unfinished p)) (thrs s).
 Lemma terminalb_sound s : terminalb s = true -> terminal s.
 Proof.
-  unfold terminalb, terminal. intros H i p Hp. rewrite forallb_forall in H.
+  unfold terminalb, terminal, all_done. intros H i p Hp. rewrite forallb_forall in H.
   specialize (H p (nth_error_In _ _ Hp)). destruct p; cbn in H; try discriminate; auto.
 Qed.
 
 Definition final_state (ops : list (list Z)) : st :=
-  fst (run_sched (length (flat_map decode_sched ops) + 600) (init ops) (flat_map decode_sched ops) []).
+  fst (run_sched (run_fuel ops) (init ops) (flat_map decode_sched ops) []).
 Lemma final_reachable ops : reachable ops (final_state ops).
 Proof. apply run_sched_reachable, r_init. Qed.
-
-(* the waiter of a bare-handle closure (resume(suspend_point), co_await pool(awaitable)) IS forgotten when the
-   closure is destroyed un-run: the faithful model refutes "never forgotten" for these two kinds *)
-Definition forgotten (s : st) : bool :=
-  existsb (fun x => negb (owned (ck x)) && Nat.eqb (cran x) 0 && Nat.eqb (ccanc x) 0 && Nat.eqb (cdrop x) 1) (clos s).
-
-Lemma bare_forgotten_witness :
-  let ops := [[1;1]; [3;0]; [2;0;4;0;0]; [2;0;1;0;0]]%Z in
-  terminalb (final_state ops) = true /\ forgotten (final_state ops) = true.
-Proof. vm_compute. split; reflexivity. Qed.
-
-Theorem bare_handle_forgotten_refuted : exists ops s, reachable ops s /\ terminal s /\ forgotten s = true.
-Proof.
-  exists [[1;1]; [3;0]; [2;0;4;0;0]; [2;0;1;0;0]]%Z. eexists. split; [apply final_reachable|].
-  destruct bare_forgotten_witness as [A B]. split; [apply terminalb_sound, A|exact B].
-Qed.
